@@ -8,12 +8,16 @@ Open Scope N_scope.
 
 (* ------------------------------------------------------------------ the pieces decode looks at *)
 
-(* offset of the next marker after the first one (or the end): where the frame text is cut *)
-Definition dec_next (msg : str) : nat :=
+(* offset of the next marker after the first one (or the end) ... *)
+Definition dec_next0 (msg : str) : nat :=
   match find_sub MARK (skipn 5 msg) with
   | Some k => (k + 5)%nat
   | None => length msg
   end.
+
+(* ... moved back to the end of the first CheckSum field, when there is one: where the frame
+   text is cut *)
+Definition dec_next (msg : str) : nat := cut_at_checksum msg (dec_next0 msg).
 
 (* the slice of raw that decode treats as the frame, given the marker offset i *)
 Definition dec_encoded (i : nat) (raw : str) : str :=
@@ -38,76 +42,56 @@ Definition frame_fields (raw : str) : list str :=
   | None => []
   end.
 
+(* another marker follows the first one *)
+Definition has_next (msg : str) : bool :=
+  match find_sub MARK (skipn 5 msg) with Some _ => true | None => false end.
+
+(* junk before the marker plus the frame candidate: what a rejection / acceptance consumes *)
+Definition frame_len (i : nat) (raw : str) : Z := (Z.of_nat i + Z.of_nat (dec_next (skipn i raw)))%Z.
+
+Definition st0 : dst := mkD [] [] UNKNOWN false.
+
 Lemma decode_eq G bs raw :
   decode G bs raw true =
   match find_sub MARK raw with
-  | None => Ok (None, zlen raw, None)
+  | None => Ok (None, (zlen raw - Z.of_nat (marker_tail raw))%Z, None)
   | Some i =>
       match dec_fields i raw with
       | f0 :: f1 :: _ :: _ =>
           match split1 61 f0 with
           | (_, None) => Exc EValue
           | (_, Some v0) =>
-              if negb (str_eqb v0 bs) then Ok (None, zlen raw, None)
+              if negb (str_eqb v0 bs) then Ok (None, frame_len i raw, None)
               else
                 match split1 61 f1 with
-                | (_, None) => Ok (None, zlen raw, None)
+                | (_, None) => Ok (None, frame_len i raw, None)
                 | (tag1, Some v1) =>
-                    if negb (str_eqb tag1 T9) then Ok (None, zlen raw, None)
+                    if negb (str_eqb tag1 T9) then Ok (None, frame_len i raw, None)
                     else
                       match py_int v1 with
-                      | None => Exc EValue
+                      | None => Ok (None, frame_len i raw, None)
                       | Some bl =>
-                          let msg_length := (zlen f0 + zlen f1 + 9 + bl)%Z in
-                          if (zlen raw <? msg_length)%Z then Ok (None, Z.of_nat i, None)
+                         if (bl <? 0)%Z then Ok (None, frame_len i raw, None) else
+                          if (zlen raw - Z.of_nat i <? zlen f0 + zlen f1 + 9 + bl)%Z
+                          then Ok (None, Z.of_nat i, None)
                           else
-                            match fields_loop G (dec_ck (dec_fields i raw)) (mkD [] [] UNKNOWN false)
-                                              (dec_fields i raw) with
+                            match fields_loop G (dec_ck (dec_fields i raw)) st0 (dec_fields i raw) with
                             | FExc e => Exc e
-                            | FReturnBad => Ok (None, zlen raw, None)
+                            | FReturnBad => Ok (None, frame_len i raw, None)
                             | FCont st =>
                                 if d_ck st
                                 then Ok (Some (mkMsg (d_type st) (d_root st)),
-                                         (Z.of_nat i + msg_length)%Z, Some (dec_encoded i raw))
-                                else Ok (None, (Z.of_nat i + msg_length)%Z, None)
+                                         frame_len i raw, Some (dec_encoded i raw))
+                                else Ok (None, frame_len i raw, None)
                             end
                       end
                 end
           end
-      | _ => Ok (None, Z.of_nat i, None)
+      | _ => if has_next (skipn i raw) then Ok (None, frame_len i raw, None)
+             else Ok (None, Z.of_nat i, None)
       end
   end.
 Proof. reflexivity. Qed.
-
-(* ------------------------------------------------------------------ (a) which exceptions *)
-
-Definition silent_kind (e : exc) : Prop := e = EValue \/ e = EFIXMessage \/ e = EAttribute.
-
-Lemma ct_add_group_exc t it c e : ct_add_group t it c = Exc e -> e = EAttribute.
-Proof. unfold ct_add_group. destruct (ct_get t c) as [[| |]|]; intros H; inversion H; reflexivity. Qed.
-
-Lemma add_pending_exc p c e : add_pending p c = Exc e -> e = EAttribute.
-Proof. destruct p as [[t it]|]; cbn; [apply ct_add_group_exc|discriminate]. Qed.
-
-Lemma pop_while_exc tag stack : forall p root e, pop_while tag stack p root = Exc e -> e = EAttribute.
-Proof.
-  induction stack as [|c rest IH]; intros p root e; cbn [pop_while].
-  - destruct (add_pending p root) eqn:E; cbn [bind]; [discriminate|].
-    intros H. inversion H. subst. eapply add_pending_exc; eauto.
-  - destruct (add_pending p (c_tags c)) eqn:E; cbn [bind].
-    + destruct (mem_str tag _); [discriminate|]. apply IH.
-    + intros H. inversion H. subst. eapply add_pending_exc; eauto.
-Qed.
-
-Lemma ct_set_exc t v c e : ct_set t v c = Exc e ->
-  (e = EFIXMessage /\ py_int t = None) \/ (e = EDuplicatedTag /\ ct_mem t c = true).
-Proof.
-  unfold ct_set. destruct (py_int t); [|intros H; inversion H; auto].
-  destruct (ct_mem t c); intros H; inversion H; auto.
-Qed.
-
-Lemma ct_set_fresh_exc t v c e : ct_mem t c = false -> ct_set t v c = Exc e -> e = EFIXMessage.
-Proof. intros Hm H. apply ct_set_exc in H. destruct H as [[-> _]|[_ H]]; [reflexivity|congruence]. Qed.
 
 Ltac dmatch H :=
   match type of H with
@@ -115,362 +99,7 @@ Ltac dmatch H :=
   | context [if ?x then _ else _] => destruct x eqn:?
   end.
 
-Lemma field_step_exc G ck st m e : field_step G ck st m = FExc e -> silent_kind e.
-Proof.
-  unfold field_step, silent_kind, bind. intros H.
-  repeat (dmatch H; try discriminate);
-    inversion H; subst; auto;
-    repeat match goal with
-    | E : context [match ?x with _ => _ end] |- _ => destruct x eqn:?; try discriminate
-    end;
-    repeat match goal with
-    | E : ct_add_group _ _ _ = Exc _ |- _ => apply ct_add_group_exc in E; subst
-    | E : pop_while _ _ _ _ = Exc _ |- _ => apply pop_while_exc in E; subst
-    | E : ct_set _ _ [] = Exc _ |- _ => apply ct_set_fresh_exc in E; [subst|reflexivity]
-    | E : ct_set _ _ _ = Exc _, M : ct_mem _ _ = false |- _ => apply (ct_set_fresh_exc _ _ _ _ M) in E; subst
-    | E : Exc _ = Exc _ |- _ => inversion E; subst; clear E
-    end; auto.
-Qed.
-
-Lemma fields_loop_exc G ck fs : forall st e, fields_loop G ck st fs = FExc e -> silent_kind e.
-Proof.
-  induction fs as [|m fs IH]; intros st e; cbn [fields_loop]; [discriminate|].
-  destruct (field_step G ck st m) as [st'| |e'] eqn:E; [apply IH|discriminate|].
-  intros H. inversion H. subst. eapply field_step_exc; eauto.
-Qed.
-
-Lemma decode_exc_kinds G bs raw e : decode G bs raw true = Exc e -> silent_kind e.
-Proof.
-  rewrite decode_eq. intros H. cbv zeta in H.
-  repeat (dmatch H; try discriminate); inversion H; subst;
-    try (left; reflexivity); eapply fields_loop_exc; eauto.
-Qed.
-
-(* ------------------------------------------------------------------ (c) the checksum flag *)
-
-Lemma field_step_ck G ck st m st' : field_step G ck st m = FCont st' ->
-  exists tag val, split1 61 m = (tag, Some val) /\
-    if str_eqb tag T10
-    then exists z, py_int val = Some z /\ d_ck st' = Z.eqb (Z.of_N ck) z
-    else d_ck st' = d_ck st.
-Proof.
-  unfold field_step. destruct (split1 61 m) as [tag [val|]] eqn:S; [|discriminate].
-  intros H. exists tag, val. split; [reflexivity|].
-  match type of H with
-  | match ?r1 with _ => _ end = _ => destruct r1 as [st1|e1] eqn:R1; [|discriminate]
-  end.
-  assert (Hck : d_ck st' = d_ck st1).
-  { clear R1. unfold bind in H.
-    repeat (dmatch H; try discriminate); inversion H; reflexivity. }
-  rewrite Hck. clear H Hck.
-  destruct (str_eqb tag T10).
-  - destruct (py_int val) as [z|]; [|discriminate]. inversion R1. exists z. auto.
-  - destruct (str_eqb tag T35); inversion R1; reflexivity.
-Qed.
-
-Lemma fields_loop_ck G ck fs : forall st st',
-  fields_loop G ck st fs = FCont st' -> d_ck st' = true ->
-  d_ck st = true \/ exists v, In (field T10 v) fs /\ py_int v = Some (Z.of_N ck).
-Proof.
-  induction fs as [|m fs IH]; intros st st'; cbn [fields_loop].
-  - intros H. inversion H. auto.
-  - destruct (field_step G ck st m) as [st1| |] eqn:E; try discriminate.
-    intros H Hck. destruct (IH _ _ H Hck) as [H1|(v & Hin & Hv)].
-    + destruct (field_step_ck _ _ _ _ _ E) as (tag & val & S & Hc).
-      destruct (str_eqb tag T10) eqn:Et.
-      * destruct Hc as (z & Hz & Hd). right. exists val. split.
-        -- left. apply streqb_eq in Et. subst tag. apply split1_some in S. rewrite S. reflexivity.
-        -- rewrite Hz. f_equal. rewrite Hd in H1. apply Z.eqb_eq in H1. auto.
-      * left. congruence.
-    + right. exists v. split; [now right|exact Hv].
-Qed.
-
-(* ------------------------------------------------------------------ inversion of a normal return *)
-
-Definition st0 : dst := mkD [] [] UNKNOWN false.
-
-Lemma decode_ok_inv G bs raw m n r : decode G bs raw true = Ok (m, n, r) ->
-  (m = None /\ r = None /\ n = zlen raw) \/
-  exists i, find_sub MARK raw = Some i /\
-    ((m = None /\ r = None /\ n = Z.of_nat i) \/
-     exists f0 f1 f2 rest t0 v1 bl,
-       dec_fields i raw = f0 :: f1 :: f2 :: rest
-       /\ split1 61 f0 = (t0, Some bs) /\ split1 61 f1 = (T9, Some v1) /\ py_int v1 = Some bl
-       /\ (zlen f0 + zlen f1 + 9 + bl <= zlen raw)%Z
-       /\ n = (Z.of_nat i + (zlen f0 + zlen f1 + 9 + bl))%Z
-       /\ ((m = None /\ r = None) \/
-           exists st, fields_loop G (dec_ck (dec_fields i raw)) st0 (dec_fields i raw) = FCont st
-                      /\ d_ck st = true /\ m = Some (mkMsg (d_type st) (d_root st))
-                      /\ r = Some (dec_encoded i raw))).
-Proof.
-  rewrite decode_eq. intros H. cbv zeta in H.
-  destruct (find_sub MARK raw) as [i|] eqn:Ei; [|inversion H; auto].
-  destruct (dec_fields i raw) as [|f0 [|f1 [|f2 rest]]] eqn:Ef;
-    [inversion H; right; exists i; split; [reflexivity|left; auto] ..|].
-  destruct (split1 61 f0) as [t0 [v0|]] eqn:S0; [|discriminate].
-  destruct (str_eqb v0 bs) eqn:Eb; cbn [negb] in H; [|inversion H; auto].
-  apply streqb_eq in Eb. subst v0.
-  destruct (split1 61 f1) as [t1 [v1|]] eqn:S1; [|inversion H; auto].
-  destruct (str_eqb t1 T9) eqn:E9; cbn [negb] in H; [|inversion H; auto].
-  apply streqb_eq in E9. subst t1.
-  destruct (py_int v1) as [bl|] eqn:Ebl; [|discriminate].
-  destruct (zlen raw <? zlen f0 + zlen f1 + 9 + bl)%Z eqn:El.
-  { inversion H. right. exists i. split; [reflexivity|left; auto]. }
-  apply Z.ltb_ge in El.
-  destruct (fields_loop G _ _ _) as [st| |e] eqn:Efl; [|inversion H; auto|discriminate].
-  right. exists i. split; [reflexivity|]. right.
-  exists f0, f1, f2, rest, t0, v1, bl.
-  destruct (d_ck st) eqn:Eck; inversion H; subst; repeat (split; [solve [auto]|]).
-  - right. exists st. rewrite Ef. auto.
-  - left. auto.
-Qed.
-
-(* ------------------------------------------------------------------ (b) consumed length *)
-
-(* the BodyLength value decode reads (second field of the frame text), when it parses *)
-Definition frame_blen (raw : str) : option Z :=
-  match frame_fields raw with
-  | _ :: f1 :: _ => match split1 61 f1 with (_, Some v) => py_int v | (_, None) => None end
-  | _ => None
-  end.
-
-Definition marker_offset (raw : str) : Z :=
-  match find_sub MARK raw with Some i => Z.of_nat i | None => 0%Z end.
-
-Lemma decode_consumed_shape G bs raw m n r : decode G bs raw true = Ok (m, n, r) ->
-  n = zlen raw \/
-  exists i, find_sub MARK raw = Some i /\
-    (n = Z.of_nat i \/
-     exists f0 f1 rest bl,
-       frame_fields raw = f0 :: f1 :: rest /\ frame_blen raw = Some bl
-       /\ n = (Z.of_nat i + (zlen f0 + zlen f1 + 9 + bl))%Z
-       /\ (zlen f0 + zlen f1 + 9 + bl <= zlen raw)%Z).
-Proof.
-  intros H. apply decode_ok_inv in H.
-  destruct H as [(_ & _ & Hn)|(i & Ei & [(_ & _ & Hn)|H])]; [auto|right; exists i; auto|].
-  destruct H as (f0 & f1 & f2 & rest & t0 & v1 & bl & Ef & S0 & S1 & Ebl & Hle & Hn & _).
-  right. exists i. split; [exact Ei|]. right. exists f0, f1, (f2 :: rest), bl.
-  unfold frame_blen, frame_fields. rewrite Ei, Ef, S1. auto.
-Qed.
-
-Lemma marker_offset_bounds raw : (0 <= marker_offset raw <= zlen raw)%Z.
-Proof.
-  unfold marker_offset, zlen. destruct (find_sub MARK raw) as [i|] eqn:E; [|lia].
-  apply find_sub_spec in E. destruct E as [E _]. lia.
-Qed.
-
-(* the consumed length is never negative when the BodyLength that was read is not *)
-Lemma decode_consumed_nonneg G bs raw m n r : decode G bs raw true = Ok (m, n, r) ->
-  (forall bl, frame_blen raw = Some bl -> (0 <= bl)%Z) -> (0 <= n)%Z.
-Proof.
-  intros H Hbl. apply decode_consumed_shape in H. unfold zlen in *.
-  destruct H as [->|(i & Ei & [->|H])]; [lia|lia|].
-  destruct H as (f0 & f1 & rest & bl & _ & Eb & -> & _). specialize (Hbl _ Eb). lia.
-Qed.
-
-(* ... and exceeds the buffer by at most the length of the junk before the marker *)
-Lemma decode_consumed_upper G bs raw m n r : decode G bs raw true = Ok (m, n, r) ->
-  (n <= zlen raw + marker_offset raw)%Z.
-Proof.
-  intros H. apply decode_consumed_shape in H. pose proof (marker_offset_bounds raw) as B.
-  unfold marker_offset in *.
-  destruct H as [->|(i & Ei & [->|H])]; [lia|rewrite Ei in *; lia|].
-  destruct H as (f0 & f1 & rest & bl & _ & _ & -> & Hle). rewrite Ei. lia.
-Qed.
-
-Lemma decode_consumed_upper0 G bs raw m n r : decode G bs raw true = Ok (m, n, r) ->
-  find_sub MARK raw = Some 0%nat -> (n <= zlen raw)%Z.
-Proof.
-  intros H E. apply decode_consumed_upper in H. unfold marker_offset in H. rewrite E in H. lia.
-Qed.
-
-(* a returned message always comes with a positive length when BodyLength is not negative *)
-Lemma decode_msg_positive G bs raw m n r : decode G bs raw true = Ok (Some m, n, r) ->
-  (forall bl, frame_blen raw = Some bl -> (0 <= bl)%Z) -> (0 < n)%Z.
-Proof.
-  intros H Hbl. pose proof (decode_ok_inv _ _ _ _ _ _ H) as I.
-  destruct I as [(? & _)|(i & Ei & [(? & _)|I])]; try discriminate.
-  destruct I as (f0 & f1 & f2 & rest & t0 & v1 & bl & Ef & S0 & S1 & Ebl & Hle & Hn & _).
-  assert (Eb : frame_blen raw = Some bl) by (unfold frame_blen, frame_fields; now rewrite Ei, Ef, S1).
-  specialize (Hbl _ Eb). unfold zlen in *. lia.
-Qed.
-
-(* ------------------------------------------------------------------ (c) what acceptance means *)
-
-Lemma join_snoc_empty sep l : l <> [] -> join sep (l ++ [[]]) = join sep l ++ sep.
-Proof.
-  induction l as [|p l IH]; [congruence|]. intros _.
-  destruct l as [|p' l].
-  - cbn. now rewrite app_nil_r.
-  - change ((p :: p' :: l) ++ [[]]) with (p :: ((p' :: l) ++ [[]])).
-    rewrite join_cons by (destruct l; discriminate).
-    rewrite IH by discriminate. change (join sep (p :: p' :: l)) with (p ++ sep ++ join sep (p' :: l)).
-    rewrite <- !app_assoc. reflexivity.
-Qed.
-
-(* the frame text is its fields joined by SOH, with or without a final SOH *)
-Lemma dec_fields_text i raw :
-  dec_encoded i raw = join SOHs (dec_fields i raw)
-  \/ (dec_fields i raw <> [] /\ dec_encoded i raw = join SOHs (dec_fields i raw) ++ SOHs).
-Proof.
-  unfold dec_fields, strip_last_empty. set (e := dec_encoded i raw).
-  pose proof (join_split_on 1 e) as J. fold SOHs in J.
-  destruct (rev (split_on 1 e)) as [|[|c p] r] eqn:R; auto.
-  assert (E : split_on 1 e = rev r ++ [[]]).
-  { rewrite <- (rev_involutive (split_on 1 e)), R. reflexivity. }
-  destruct (rev r) as [|q qs] eqn:Q.
-  - left. rewrite E in J. cbn in J. cbn. auto.
-  - right. split; [discriminate|]. rewrite E in J. rewrite join_snoc_empty in J by discriminate. auto.
-Qed.
-
-Lemma decode_accept_sound G bs raw m n r : decode G bs raw true = Ok (Some m, n, r) ->
-  exists i, find_sub MARK raw = Some i /\ r = Some (dec_encoded i raw) /\
-    let fs := dec_fields i raw in
-    let X := join SOHs (removelast fs) in
-    (3 <= length fs)%nat
-    (* the accepted text is X, SOH, the last field, and possibly a final SOH *)
-    /\ (exists tail, (tail = [] \/ tail = SOHs) /\ dec_encoded i raw = X ++ SOHs ++ last fs [] ++ tail)
-    (* BeginString is the expected one and the second field is a BodyLength that parses *)
-    /\ (exists t0 v1 bl, nth 0 fs [] = field t0 bs /\ nth 1 fs [] = field T9 v1 /\ py_int v1 = Some bl)
-    (* some field "10=v" carries the sum of X and one SOH, modulo 256 *)
-    /\ exists v, In (field T10 v) fs /\ py_int v = Some (Z.of_N ((sum_codes X + 1) mod 256)).
-Proof.
-  intros H. apply decode_ok_inv in H.
-  destruct H as [(? & _)|(i & Ei & [(? & _)|I])]; try discriminate.
-  destruct I as (f0 & f1 & f2 & rest & t0 & v1 & bl & Ef & S0 & S1 & Ebl & Hle & Hn & [(? & _)|I]);
-    [discriminate|].
-  destruct I as (st & Efl & Eck & Em & Er).
-  exists i. split; [exact Ei|]. split; [exact Er|]. cbv zeta.
-  split; [rewrite Ef; cbn [length]; lia|]. split.
-  { assert (L : (2 <= length (dec_fields i raw))%nat) by (rewrite Ef; cbn [length]; lia).
-    destruct (dec_fields_text i raw) as [E|[_ E]]; rewrite E, (join_removelast _ _ L).
-    - exists []. split; [auto|]. now rewrite app_nil_r.
-    - exists SOHs. split; [auto|]. now rewrite <- !app_assoc. }
-  split.
-  { exists t0, v1, bl. rewrite Ef. cbn [nth]. apply split1_some in S0, S1. rewrite S0, S1. auto. }
-  destruct (fields_loop_ck _ _ _ _ _ Efl Eck) as [F|(v & Hin & Hv)]; [discriminate|].
-  exists v. split; [exact Hin|exact Hv].
-Qed.
-
-(* ------------------------------------------------------------------ (d) progress of the reader *)
-
-Lemma decode_msg_nonempty G bs raw m n r : decode G bs raw true = Ok (Some m, n, r) -> raw <> [].
-Proof.
-  intros H. apply decode_ok_inv in H.
-  destruct H as [(? & _)|(i & Ei & _)]; [discriminate|].
-  apply find_sub_spec in Ei. destruct Ei as [Ei _]. cbn [MARK length] in Ei.
-  destruct raw; [cbn in Ei; lia|discriminate].
-Qed.
-
-(* every message the decoder returns for any suffix of the buffer comes with a positive length *)
-Definition suffix_progress (G : group_table) (bs buf : str) : Prop :=
-  forall k m n r, decode G bs (skipn k buf) true = Ok (Some m, n, r) -> (0 < n)%Z.
-
-Lemma suffix_progress_skipn G bs buf j : suffix_progress G bs buf -> suffix_progress G bs (skipn j buf).
-Proof. intros H k m n r. rewrite skipn_skipn'. apply H. Qed.
-
-Definition status {A B} (x : A * B * N) : N := snd x.
-Definition residual {A B} (x : str * A * B) : str := fst (fst x).
-Definition delivered {A B} (x : A * list (message * str) * B) : list (message * str) := snd (fst x).
-
-Lemma reader_loop_terminates G bs : forall fuel buf acc,
-  (length buf < fuel)%nat -> suffix_progress G bs buf -> status (reader_loop G bs fuel buf acc) <> 2.
-Proof.
-  induction fuel as [|f IH]; intros buf acc Hlen Hp; [lia|].
-  cbn [reader_loop].
-  destruct (decode G bs buf true) as [[[m n] r]|e] eqn:D; [|cbn; discriminate].
-  destruct m as [m|]; [|destruct r; cbn; discriminate].
-  assert (Hn : (0 < n)%Z) by (apply (Hp 0%nat m n r); exact D).
-  assert (Hne : buf <> []) by (eapply decode_msg_nonempty; eauto).
-  assert (Hlt : (length (skipn (Z.to_nat n) buf) < f)%nat).
-  { rewrite skipn_length. destruct buf; [congruence|]. cbn [length] in *. lia. }
-  replace (0 <? n)%Z with true by (symmetry; apply Z.ltb_lt; exact Hn).
-  destruct r; apply IH; auto using suffix_progress_skipn.
-Qed.
-
-Lemma reader_step_terminates G bs buf chunk :
-  suffix_progress G bs (buf ++ chunk) -> status (reader_step G bs buf chunk) <> 2.
-Proof. intros H. unfold reader_step. apply reader_loop_terminates; [lia|exact H]. Qed.
-
-(* each delivering iteration strictly shortens the buffer *)
-Lemma reader_iteration_shrinks G bs buf m n r :
-  decode G bs buf true = Ok (Some m, n, r) -> (0 < n)%Z ->
-  (length (skipn (Z.to_nat n) buf) < length buf)%nat.
-Proof.
-  intros D Hn. pose proof (decode_msg_nonempty _ _ _ _ _ _ D) as Hne.
-  rewrite skipn_length. destruct buf; [congruence|]. cbn [length]. lia.
-Qed.
-
-(* sufficient for progress: no suffix of the buffer carries a negative BodyLength *)
-Lemma nonneg_blen_progress G bs buf :
-  (forall k bl, frame_blen (skipn k buf) = Some bl -> (0 <= bl)%Z) -> suffix_progress G bs buf.
-Proof. intros H k m n r D. eapply decode_msg_positive; eauto. Qed.
-
-(* ------------------------------------------------------------------ (a) when decode does not raise *)
-
-Definition is_some {A} (o : option A) : bool := match o with Some _ => true | None => false end.
-
-Definition field_tag (f : str) : option str :=
-  match split1 61 f with (t, Some _) => Some t | (_, None) => None end.
-
-(* every tag is text that int() accepts *)
-Definition tags_int (fs : list str) : bool :=
-  forallb (fun f => match split1 61 f with (t, Some _) => is_some (py_int t) | (_, None) => true end) fs.
-(* the value of every field with tag "10" is text that int() accepts *)
-Definition cks_int (fs : list str) : bool :=
-  forallb (fun f => match split1 61 f with
-                    | (t, Some v) => negb (str_eqb t T10) || is_some (py_int v)
-                    | (_, None) => true
-                    end) fs.
-(* if the second field is a BodyLength, its value is text that int() accepts *)
-Definition blen_int (fs : list str) : bool :=
-  match fs with
-  | _ :: f1 :: _ => match split1 61 f1 with
-                    | (t, Some v) => negb (str_eqb t T9) || is_some (py_int v)
-                    | (_, None) => true
-                    end
-  | _ => true
-  end.
-
-(* The group bookkeeping of the field loop on tags only: which plain tags have been stored at the
-   root, and the member lists of the open group contexts.  tstep = None is the situation
-   "a plain tag that is already stored at the root arrives after all open groups were closed". *)
-Record tstate := mkT { t_root : list str; t_stack : list (list str) }.
-
-Fixpoint tpop (tag : str) (stack : list (list str)) : list (list str) :=
-  match stack with
-  | [] => []
-  | ms :: rest => if mem_str tag ms then stack else tpop tag rest
-  end.
-
-Definition tstep (G : group_table) (ts : tstate) (tag : str) : option tstate :=
-  match lookup_group G tag with
-  | Some ms => Some (mkT (t_root ts) (ms :: tpop tag (t_stack ts)))
-  | None =>
-      match t_stack ts with
-      | [] => Some (mkT (tag :: t_root ts) [])
-      | _ => match tpop tag (t_stack ts) with
-             | [] => if mem_str tag (t_root ts) then None else Some (mkT (tag :: t_root ts) [])
-             | s => Some (mkT (t_root ts) s)
-             end
-      end
-  end.
-
-Fixpoint trun (G : group_table) (ts : tstate) (tags : list (option str)) : bool :=
-  match tags with
-  | [] => true
-  | None :: _ => true               (* a field without "=": the loop returns here *)
-  | Some t :: rest =>
-      match tstep G ts t with
-      | Some ts' => trun G ts' rest
-      | None => false
-      end
-  end.
-
-Definition no_dup_after_group (G : group_table) (fs : list str) : bool :=
-  trun G (mkT [] []) (map field_tag fs).
-
-(* --- containers *)
+(* ------------------------------------------------------------------ (a) the field loop never raises *)
 
 Lemma str_eqb_sym a b : str_eqb a b = str_eqb b a.
 Proof.
@@ -491,11 +120,12 @@ Qed.
 Lemma ct_mem_put q t v c : ct_mem q (ct_put t v c) = str_eqb t q || ct_mem q c.
 Proof. unfold ct_mem. rewrite ct_get_put. destruct (str_eqb t q); reflexivity. Qed.
 
-Section Sim.
+Section Total.
 Variable G : group_table.
 
 Definition is_group (t : str) : Prop := lookup_group G t <> None.
 
+(* keys that are group tags hold group values: add_group on them cannot fail *)
 Definition grp_ok (c : container) : Prop :=
   forall k v, is_group k -> ct_get k c = Some v -> exists items, v = VGrp items.
 
@@ -514,32 +144,19 @@ Proof.
   apply streqb_eq in E. subst k. contradiction.
 Qed.
 
-Lemma plain_mem_put_grp q t v c : lookup_group G q = None -> is_group t ->
-  ct_mem q (ct_put t v c) = ct_mem q c.
-Proof.
-  intros Hq Ht. rewrite ct_mem_put. destruct (str_eqb t q) eqn:E; [|reflexivity].
-  apply streqb_eq in E. subst q. contradiction.
-Qed.
-
 Lemma ct_add_group_ok t item c : grp_ok c -> is_group t ->
-  exists c', ct_add_group t item c = Ok c' /\ grp_ok c'
-             /\ forall q, lookup_group G q = None -> ct_mem q c' = ct_mem q c.
+  exists c', ct_add_group t item c = Ok c' /\ grp_ok c'.
 Proof.
   intros Hc Ht. unfold ct_add_group. destruct (ct_get t c) as [v|] eqn:E.
-  - destruct (Hc t v Ht E) as [items ->]. eexists. split; [reflexivity|]. split.
-    + now apply grp_ok_put_grp.
-    + intros q Hq. now apply plain_mem_put_grp.
-  - eexists. split; [reflexivity|]. split.
-    + now apply grp_ok_put_grp.
-    + intros q Hq. now apply plain_mem_put_grp.
+  - destruct (Hc t v Ht E) as [items ->]. eexists. split; [reflexivity|]. now apply grp_ok_put_grp.
+  - eexists. split; [reflexivity|]. now apply grp_ok_put_grp.
 Qed.
 
 Definition pending_ok (p : option (str * container)) : Prop :=
   match p with Some (t, _) => is_group t | None => True end.
 
 Lemma add_pending_ok p c : grp_ok c -> pending_ok p ->
-  exists c', add_pending p c = Ok c' /\ grp_ok c'
-             /\ forall q, lookup_group G q = None -> ct_mem q c' = ct_mem q c.
+  exists c', add_pending p c = Ok c' /\ grp_ok c'.
 Proof.
   intros Hc Hp. destruct p as [[t item]|]; cbn [add_pending].
   - now apply ct_add_group_ok.
@@ -551,151 +168,99 @@ Definition ctx_ok (c : ctx) : Prop := is_group (c_tag c) /\ grp_ok (c_tags c).
 Lemma pop_while_ok tag : forall stack p root,
   Forall ctx_ok stack -> grp_ok root -> pending_ok p ->
   exists stack' root', pop_while tag stack p root = Ok (stack', root')
-    /\ map c_members stack' = tpop tag (map c_members stack)
-    /\ Forall ctx_ok stack' /\ grp_ok root'
-    /\ forall q, lookup_group G q = None -> ct_mem q root' = ct_mem q root.
+    /\ Forall ctx_ok stack' /\ grp_ok root'.
 Proof.
   induction stack as [|c rest IH]; intros p root Hs Hr Hp; cbn [pop_while].
-  - destruct (add_pending_ok p root Hr Hp) as (r' & E & Hr' & Hm). rewrite E. cbn [bind].
+  - destruct (add_pending_ok p root Hr Hp) as (r' & E & Hr'). rewrite E. cbn [bind].
     exists [], r'. auto.
   - inversion Hs as [|? ? [Hct Hcg] Hrest]. subst.
-    destruct (add_pending_ok p (c_tags c) Hcg Hp) as (tg & E & Htg & _). rewrite E. cbn [bind].
-    cbn [c_members c_tag c_tags map tpop].
+    destruct (add_pending_ok p (c_tags c) Hcg Hp) as (tg & E & Htg). rewrite E. cbn [bind].
+    cbn [c_members c_tag c_tags].
     destruct (mem_str tag (c_members c)) eqn:M.
-    + eexists _, root. split; [reflexivity|]. split; [reflexivity|].
+    + eexists _, root. split; [reflexivity|].
       split; [constructor; [split; assumption|assumption]|]. auto.
     + apply IH; auto.
 Qed.
 
-(* the decoder state and the tag-only state describe the same bookkeeping *)
-Definition sim (st : dst) (ts : tstate) : Prop :=
-  map c_members (d_stack st) = t_stack ts
-  /\ (forall q, lookup_group G q = None -> ct_mem q (d_root st) = mem_str q (t_root ts))
-  /\ grp_ok (d_root st) /\ Forall ctx_ok (d_stack st).
-
-Lemma mem_str_cons q t l : mem_str q (t :: l) = str_eqb q t || mem_str q l.
-Proof. reflexivity. Qed.
-
 Lemma ct_set_ok t v c : py_int t <> None -> ct_mem t c = false -> ct_set t v c = Ok (ct_put t (VStr v) c).
 Proof. intros Hi Hm. unfold ct_set. destruct (py_int t); [|congruence]. now rewrite Hm. Qed.
 
-Lemma field_step_sim ck st ts m tag val ts' :
-  sim st ts -> split1 61 m = (tag, Some val) ->
-  py_int tag <> None -> (tag = T10 -> py_int val <> None) ->
-  tstep G ts tag = Some ts' ->
-  exists st', field_step G ck st m = FCont st' /\ sim st' ts'.
+(* invariant of the decoder state *)
+Definition inv (st : dst) : Prop := grp_ok (d_root st) /\ Forall ctx_ok (d_stack st).
+
+(* one field: the frame is rejected, or the loop goes on in a good state - never an exception *)
+Lemma field_step_total ck st m : inv st ->
+  field_step G ck st m = FReturnBad \/ exists st', field_step G ck st m = FCont st' /\ inv st'.
 Proof.
-  intros (Hst & Hroot & Hgr & Hctx) S Htag Hck T.
-  unfold field_step. rewrite S.
-  (* the checksum / type bookkeeping leaves root and stack alone *)
+  intros (Hgr & Hctx). unfold field_step.
+  destruct (split1 61 m) as [tag [val|]] eqn:S; [|now left].
+  destruct (py_int tag) as [z|] eqn:Htag; [|now left]. right.
+  assert (Hi : py_int tag <> None) by congruence.
   match goal with
   | |- exists st', match ?r1 with _ => _ end = _ /\ _ =>
       assert (R1 : exists st1, r1 = Ok st1 /\ d_root st1 = d_root st /\ d_stack st1 = d_stack st)
   end.
-  { destruct (str_eqb tag T10) eqn:E10.
-    - apply streqb_eq in E10. destruct (py_int val) as [z|]; [|exfalso; now apply Hck].
-      eexists. split; [reflexivity|]. auto.
-    - destruct (str_eqb tag T35); eexists; (split; [reflexivity|]); auto. }
+  { destruct (str_eqb tag T10); [|destruct (str_eqb tag T35)]; eexists; (split; [reflexivity|]); auto. }
   destruct R1 as (st1 & -> & E1 & E2). rewrite E1, E2. clear E1 E2.
-  unfold tstep in T.
   destruct (lookup_group G tag) as [members|] eqn:LG.
   - (* start of a group *)
-    inversion T. subst ts'. clear T.
     assert (Hg : is_group tag) by (unfold is_group; congruence).
     destruct (d_stack st) as [|c0 rest0] eqn:Est.
-    + eexists. split; [reflexivity|]. unfold sim. cbn [d_root d_stack t_root t_stack map c_members].
-      rewrite <- Hst. cbn [map tpop]. repeat split; auto.
+    + eexists. split; [reflexivity|]. split; cbn [d_root d_stack]; auto.
       constructor; [|constructor]. split; [exact Hg|apply grp_ok_nil].
     + destruct (pop_while_ok tag (c0 :: rest0) None (d_root st) Hctx Hgr I)
-        as (stack' & root' & E & Hm & Hc' & Hr' & Hmem).
-      rewrite E. eexists. split; [reflexivity|].
-      unfold sim. cbn [d_root d_stack t_root t_stack map c_members].
-      rewrite Hm, <- Hst. repeat split; auto.
-      * intros q Hq. rewrite Hmem by exact Hq. now apply Hroot.
-      * constructor; [|exact Hc']. split; [exact Hg|apply grp_ok_nil].
+        as (stack' & root' & E & Hc' & Hr').
+      rewrite E. eexists. split; [reflexivity|]. split; cbn [d_root d_stack]; auto.
+      constructor; [|exact Hc']. split; [exact Hg|apply grp_ok_nil].
   - destruct (d_stack st) as [|c0 rest0] eqn:Est.
     + (* plain tag at the root *)
-      rewrite <- Hst in T. cbn [map] in T. inversion T. subst ts'. clear T.
       destruct (ct_mem tag (d_root st)) eqn:M.
-      * destruct (py_int tag); [|congruence]. eexists. split; [reflexivity|].
-        unfold sim. cbn [d_root d_stack t_root t_stack map]. repeat split; auto.
-        -- intros q Hq. rewrite ct_mem_put, mem_str_cons, Hroot by exact Hq.
-           now rewrite (str_eqb_sym tag q).
-        -- now apply grp_ok_put_plain.
+      * eexists. split; [reflexivity|]. split; cbn [d_root d_stack]; auto.
+        now apply grp_ok_put_plain.
       * rewrite ct_set_ok by assumption. eexists. split; [reflexivity|].
-        unfold sim. cbn [d_root d_stack t_root t_stack map]. repeat split; auto.
-        -- intros q Hq. rewrite ct_mem_put, mem_str_cons, Hroot by exact Hq.
-           now rewrite (str_eqb_sym tag q).
-        -- now apply grp_ok_put_plain.
+        split; cbn [d_root d_stack]; auto. now apply grp_ok_put_plain.
     + (* plain tag while groups are open *)
       destruct (pop_while_ok tag (c0 :: rest0) None (d_root st) Hctx Hgr I)
-        as (stack' & root' & E & Hm & Hc' & Hr' & Hmem).
-      rewrite E. rewrite <- Hst in T. cbn [map] in T.
-      change (c_members c0 :: map c_members rest0) with (map c_members (c0 :: rest0)) in T.
-      rewrite <- Hm in T.
-      destruct stack' as [|c rest].
-      * cbn [map] in T.
-        assert (Mr : ct_mem tag root' = mem_str tag (t_root ts))
-          by (rewrite Hmem by exact LG; now apply Hroot).
-        destruct (mem_str tag (t_root ts)) eqn:Mt; [discriminate|]. inversion T. subst ts'. clear T.
-        rewrite Mr. rewrite ct_set_ok by assumption. eexists. split; [reflexivity|].
-        unfold sim. cbn [d_root d_stack t_root t_stack map]. repeat split; auto.
-        -- intros q Hq. rewrite ct_mem_put, mem_str_cons, Hmem, Hroot by exact Hq.
-           now rewrite (str_eqb_sym tag q).
-        -- now apply grp_ok_put_plain.
-      * cbn [map] in T. inversion T. subst ts'. clear T.
-        inversion Hc' as [|? ? [Hct Hcg] Hrest]. subst.
-        destruct (ct_mem tag (c_tags c)) eqn:Mc.
-        -- (* close the item, start the next one *)
-           rewrite (ct_set_ok tag val []) by (auto; reflexivity).
-           destruct rest as [|p rest'].
-           ++ destruct (ct_add_group_ok (c_tag c) (c_tags c) root' Hr' Hct) as (r2 & E2 & Hr2 & Hm2).
-              rewrite E2. cbn [bind]. eexists. split; [reflexivity|].
-              unfold sim. cbn [d_root d_stack t_root t_stack map c_members]. repeat split; auto.
-              ** intros q Hq. rewrite Hm2, Hmem by exact Hq. now apply Hroot.
-              ** constructor; [|constructor]. split; [exact Hct|].
-                 cbn [c_tags]. apply grp_ok_put_plain; [exact LG|apply grp_ok_nil].
-           ++ inversion Hrest as [|? ? [Hpt Hpg] Hrest']. subst.
-              destruct (ct_add_group_ok (c_tag c) (c_tags c) (c_tags p) Hpg Hct) as (tg & E2 & Htg & _).
-              rewrite E2. cbn [bind]. eexists. split; [reflexivity|].
-              unfold sim. cbn [d_root d_stack t_root t_stack map c_members]. repeat split; auto.
-              ** intros q Hq. rewrite Hmem by exact Hq. now apply Hroot.
-              ** constructor; [|constructor; [|exact Hrest']].
-                 --- split; [exact Hct|]. cbn [c_tags]. apply grp_ok_put_plain; [exact LG|apply grp_ok_nil].
-                 --- split; [exact Hpt|exact Htg].
+        as (stack' & root' & E & Hc' & Hr').
+      rewrite E. destruct stack' as [|c rest].
+      * destruct (ct_mem tag root') eqn:Mr.
+        -- eexists. split; [reflexivity|]. split; cbn [d_root d_stack]; auto.
+           now apply grp_ok_put_plain.
         -- rewrite ct_set_ok by assumption. eexists. split; [reflexivity|].
-           unfold sim. cbn [d_root d_stack t_root t_stack map c_members]. repeat split; auto.
-           ++ intros q Hq. rewrite Hmem by exact Hq. now apply Hroot.
-           ++ constructor; [|exact Hrest]. split; [exact Hct|].
-              cbn [c_tags]. now apply grp_ok_put_plain.
+           split; cbn [d_root d_stack]; auto. now apply grp_ok_put_plain.
+      * inversion Hc' as [|? ? [Hct Hcg] Hrest]. subst.
+        destruct (ct_mem tag (c_tags c)) eqn:Mc.
+        -- rewrite (ct_set_ok tag val []) by (auto; reflexivity).
+           destruct rest as [|p rest'].
+           ++ destruct (ct_add_group_ok (c_tag c) (c_tags c) root' Hr' Hct) as (r2 & E2 & Hr2).
+              rewrite E2. cbn [bind]. eexists. split; [reflexivity|].
+              split; cbn [d_root d_stack]; auto.
+              constructor; [|constructor]. split; [exact Hct|].
+              cbn [c_tags]. apply grp_ok_put_plain; [exact LG|apply grp_ok_nil].
+           ++ inversion Hrest as [|? ? [Hpt Hpg] Hrest']. subst.
+              destruct (ct_add_group_ok (c_tag c) (c_tags c) (c_tags p) Hpg Hct) as (tg & E2 & Htg).
+              rewrite E2. cbn [bind]. eexists. split; [reflexivity|].
+              split; cbn [d_root d_stack]; auto.
+              constructor; [|constructor; [|exact Hrest']].
+              ** split; [exact Hct|]. cbn [c_tags]. apply grp_ok_put_plain; [exact LG|apply grp_ok_nil].
+              ** split; [exact Hpt|exact Htg].
+        -- rewrite ct_set_ok by assumption. eexists. split; [reflexivity|].
+           split; cbn [d_root d_stack]; auto.
+           constructor; [|exact Hrest]. split; [exact Hct|].
+           cbn [c_tags]. now apply grp_ok_put_plain.
 Qed.
 
-End Sim.
-
-Lemma sim_init G : sim G st0 (mkT [] []).
+Lemma fields_loop_total ck fs : forall st, inv st -> forall e, fields_loop G ck st fs <> FExc e.
 Proof.
-  unfold sim, st0. cbn. repeat split; auto. apply grp_ok_nil.
+  induction fs as [|m fs IH]; intros st Hs e; cbn [fields_loop]; [discriminate|].
+  destruct (field_step_total ck st m Hs) as [->|(st' & -> & Hs')]; [discriminate|]. now apply IH.
 Qed.
 
-Lemma fields_loop_no_exc G ck fs : forall st ts,
-  sim G st ts -> tags_int fs = true -> cks_int fs = true ->
-  trun G ts (map field_tag fs) = true ->
-  forall e, fields_loop G ck st fs <> FExc e.
-Proof.
-  induction fs as [|m fs IH]; intros st ts Hs Ht Hc Hr e; cbn [fields_loop]; [discriminate|].
-  cbn [tags_int cks_int forallb map trun] in *.
-  apply andb_true_iff in Ht, Hc. destruct Ht as [Ht Hts]. destruct Hc as [Hc Hcs].
-  unfold field_tag in Hr.
-  destruct (split1 61 m) as [tag [val|]] eqn:S.
-  - destruct (tstep G ts tag) as [ts'|] eqn:T; [|discriminate].
-    destruct (field_step_sim G ck st ts m tag val ts' Hs S) as (st' & E & Hs'); auto.
-    + destruct (py_int tag); [discriminate|discriminate].
-    + intros ->. rewrite streqb_refl in Hc. cbn in Hc. destruct (py_int val); discriminate.
-    + rewrite E. eapply IH; eauto.
-  - unfold field_step. rewrite S. discriminate.
-Qed.
+End Total.
 
-(* the first field of the frame text starts with "8=" (it starts with the marker) *)
+Lemma inv_init G : inv G st0.
+Proof. split; [apply grp_ok_nil|constructor]. Qed.
+
 Lemma strip_last_empty_head (x : str) (ps : list str) : x <> [] -> exists ps', strip_last_empty (x :: ps) = x :: ps'.
 Proof.
   intros Hx. unfold strip_last_empty. destruct (rev (x :: ps)) as [|[|c p] r] eqn:R; eauto.
@@ -704,9 +269,15 @@ Proof.
   - injection R as Ea Er. rewrite <- Er, rev_unit. eauto.
 Qed.
 
-Lemma dec_next_ge5 r : (5 <= dec_next (MARK ++ r))%nat.
+Lemma dec_next0_ge5 (r : str) : (5 <= dec_next0 (MARK ++ r))%nat.
 Proof.
-  unfold dec_next. destruct (find_sub MARK _); [lia|]. rewrite app_length. cbn. lia.
+  unfold dec_next0. destruct (find_sub MARK _); [lia|]. rewrite app_length. cbn. lia.
+Qed.
+
+Lemma dec_next_ge2 (r : str) : (2 <= dec_next (MARK ++ r))%nat.
+Proof.
+  unfold dec_next, cut_at_checksum. pose proof (dec_next0_ge5 r).
+  destruct (find_sub CKSEP _); [|lia]. destruct (find_sub SOHs _); lia.
 Qed.
 
 Lemma first_field_has_eq i raw f0 rest :
@@ -715,7 +286,7 @@ Lemma first_field_has_eq i raw f0 rest :
 Proof.
   intros Ei Ef. apply find_sub_spec in Ei. destruct Ei as [_ [r Er]].
   unfold dec_fields, dec_encoded in Ef. rewrite Er in Ef.
-  pose proof (dec_next_ge5 r) as Hk. destruct (dec_next (MARK ++ r)) as [|[|k]]; [lia|lia|].
+  pose proof (dec_next_ge2 r) as Hk. destruct (dec_next (MARK ++ r)) as [|[|k]]; [lia|lia|].
   cbn [MARK app firstn] in Ef.
   set (t := firstn k _) in Ef.
   assert (Es : exists p ps, split_on 1 (56 :: 61 :: t) = (56 :: 61 :: p) :: ps).
@@ -727,30 +298,48 @@ Proof.
   pose proof (eq_trans (eq_sym E) Ef) as Ef2. inversion Ef2. subst. exists p. reflexivity.
 Qed.
 
-Lemma decode_no_raise G bs raw :
-  tags_int (frame_fields raw) = true -> blen_int (frame_fields raw) = true ->
-  cks_int (frame_fields raw) = true -> no_dup_after_group G (frame_fields raw) = true ->
-  exists m n r, decode G bs raw true = Ok (m, n, r).
+(* silent decode never raises: for every table, BeginString and input it returns a triple *)
+Lemma decode_total G bs raw : exists m n r, decode G bs raw true = Ok (m, n, r).
 Proof.
-  unfold frame_fields, no_dup_after_group. intros Ht Hb Hc Hd. rewrite decode_eq.
+  rewrite decode_eq.
   destruct (find_sub MARK raw) as [i|] eqn:Ei; [|eauto].
-  destruct (dec_fields i raw) as [|f0 [|f1 [|f2 rest]]] eqn:Ef; eauto.
+  destruct (dec_fields i raw) as [|f0 [|f1 [|f2 rest]]] eqn:Ef;
+    try (destruct (has_next (skipn i raw)); eauto; fail).
   destruct (first_field_has_eq _ _ _ _ Ei Ef) as [v0 S0]. rewrite S0.
   destruct (negb (str_eqb v0 bs)); eauto.
   destruct (split1 61 f1) as [t1 [v1|]] eqn:S1; eauto.
-  destruct (negb (str_eqb t1 T9)) eqn:E9; eauto.
-  cbn [blen_int] in Hb. rewrite S1 in Hb. rewrite E9 in Hb. cbn [orb] in Hb.
-  destruct (py_int v1) as [bl|]; [|discriminate]. cbv zeta.
-  destruct (_ <? _)%Z; eauto.
-  pose proof (fields_loop_no_exc G (dec_ck (f0 :: f1 :: f2 :: rest)) _ _ _ (sim_init G) Ht Hc Hd) as Hne.
-  fold st0. destruct (fields_loop G _ st0 _) as [st| |e] eqn:Efl; eauto.
+  destruct (negb (str_eqb t1 T9)); eauto.
+  destruct (py_int v1) as [bl|]; eauto.
+  destruct (bl <? 0)%Z; eauto. destruct (_ <? _)%Z; eauto.
+  pose proof (fields_loop_total G (dec_ck (f0 :: f1 :: f2 :: rest)) (f0 :: f1 :: f2 :: rest) st0 (inv_init G)) as Hne.
+  destruct (fields_loop G _ st0 _) as [st| |e] eqn:Efl; eauto.
   - destruct (d_ck st); eauto.
   - exfalso. eapply Hne; eauto.
 Qed.
 
-(* ------------------------------------------------------------------ single-byte substitution in a value *)
+(* ------------------------------------------------------------------ (c) the checksum flag *)
 
-(* the value of the last field with tag "10" *)
+Definition cks_verdict (ck : N) (v : str) : bool :=
+  three_digits v && Z.eqb (Z.of_N ck) (digits_value v).
+
+Lemma field_step_ck G ck st m st' : field_step G ck st m = FCont st' ->
+  exists tag val, split1 61 m = (tag, Some val) /\
+    d_ck st' = if str_eqb tag T10 then cks_verdict ck val else d_ck st.
+Proof.
+  unfold field_step. destruct (split1 61 m) as [tag [val|]] eqn:S; [|discriminate].
+  destruct (py_int tag) as [z|] eqn:Htag; [|discriminate].
+  intros H. exists tag, val. split; [reflexivity|].
+  match type of H with
+  | match ?r1 with _ => _ end = _ => destruct r1 as [st1|e1] eqn:R1; [|discriminate]
+  end.
+  assert (Hck : d_ck st' = d_ck st1).
+  { clear R1. unfold bind in H.
+    repeat (dmatch H; try discriminate); inversion H; reflexivity. }
+  rewrite Hck. clear H Hck.
+  destruct (str_eqb tag T10); [inversion R1; reflexivity|].
+  destruct (str_eqb tag T35); inversion R1; reflexivity.
+Qed.
+
 Fixpoint last_cks (fs : list str) : option str :=
   match fs with
   | [] => None
@@ -766,19 +355,252 @@ Fixpoint last_cks (fs : list str) : option str :=
 
 Lemma fields_loop_last_ck G ck fs : forall st st',
   fields_loop G ck st fs = FCont st' ->
-  match last_cks fs with
-  | Some v => exists z, py_int v = Some z /\ d_ck st' = Z.eqb (Z.of_N ck) z
-  | None => d_ck st' = d_ck st
-  end.
+  d_ck st' = match last_cks fs with Some v => cks_verdict ck v | None => d_ck st end.
 Proof.
   induction fs as [|f fs IH]; intros st st'; cbn [fields_loop last_cks].
   - intros H. inversion H. reflexivity.
   - destruct (field_step G ck st f) as [st1| |] eqn:E; try discriminate.
     intros H. specialize (IH _ _ H). destruct (last_cks fs) as [v|]; [exact IH|].
     destruct (field_step_ck _ _ _ _ _ E) as (tag & val & S & Hc). rewrite S.
-    destruct (str_eqb tag T10).
-    + destruct Hc as (z & Hz & Hd). exists z. split; [exact Hz|congruence].
-    + congruence.
+    destruct (str_eqb tag T10); congruence.
+Qed.
+
+(* ------------------------------------------------------------------ inversion of a return *)
+
+(* the two situations in which decode asks for more bytes although a marker is there *)
+Definition wait_case (i : nat) (raw : str) : Prop :=
+  ((length (dec_fields i raw) < 3)%nat /\ has_next (skipn i raw) = false)
+  \/ exists f0 f1 rest v1 bl,
+       dec_fields i raw = f0 :: f1 :: rest /\ split1 61 f1 = (T9, Some v1) /\ py_int v1 = Some bl
+       /\ (0 <= bl)%Z /\ (zlen raw - Z.of_nat i < zlen f0 + zlen f1 + 9 + bl)%Z.
+
+Lemma decode_ok_inv G bs raw m n r : decode G bs raw true = Ok (m, n, r) ->
+  (m = None /\ r = None /\ find_sub MARK raw = None
+   /\ n = (zlen raw - Z.of_nat (marker_tail raw))%Z) \/
+  exists i, find_sub MARK raw = Some i /\
+    ((m = None /\ r = None /\ n = Z.of_nat i /\ wait_case i raw) \/
+     (m = None /\ r = None /\ n = frame_len i raw) \/
+     exists f0 f1 f2 rest t0 v1 bl st,
+       dec_fields i raw = f0 :: f1 :: f2 :: rest
+       /\ split1 61 f0 = (t0, Some bs) /\ split1 61 f1 = (T9, Some v1) /\ py_int v1 = Some bl
+       /\ (0 <= bl)%Z /\ (zlen f0 + zlen f1 + 9 + bl <= zlen raw - Z.of_nat i)%Z
+       /\ fields_loop G (dec_ck (dec_fields i raw)) st0 (dec_fields i raw) = FCont st
+       /\ d_ck st = true /\ m = Some (mkMsg (d_type st) (d_root st))
+       /\ r = Some (dec_encoded i raw) /\ n = frame_len i raw).
+Proof.
+  rewrite decode_eq. intros H.
+  destruct (find_sub MARK raw) as [i|] eqn:Ei; [|inversion H; auto].
+  right. exists i. split; [reflexivity|].
+  assert (W : forall l, dec_fields i raw = l -> (length l < 3)%nat ->
+              (if has_next (skipn i raw) then Ok (None, frame_len i raw, None)
+               else Ok (None, Z.of_nat i, None)) = Ok (m, n, r) ->
+              (m = None /\ r = None /\ n = Z.of_nat i /\ wait_case i raw) \/
+              (m = None /\ r = None /\ n = frame_len i raw) \/ False).
+  { intros l El Hl Hw. destruct (has_next (skipn i raw)) eqn:Hn; inversion Hw; subst.
+    - right. left. auto.
+    - left. repeat split; auto. left. auto. }
+  destruct (dec_fields i raw) as [|f0 [|f1 [|f2 rest]]] eqn:Ef;
+    try (destruct (W _ eq_refl ltac:(cbn; lia) H) as [?|[?|[]]]; auto; fail).
+  clear W.
+  destruct (split1 61 f0) as [t0 [v0|]] eqn:S0; [|discriminate].
+  destruct (str_eqb v0 bs) eqn:Eb; cbn [negb] in H; [|inversion H; auto].
+  apply streqb_eq in Eb. subst v0.
+  destruct (split1 61 f1) as [t1 [v1|]] eqn:S1; [|inversion H; auto].
+  destruct (str_eqb t1 T9) eqn:E9; cbn [negb] in H; [|inversion H; auto].
+  apply streqb_eq in E9. subst t1.
+  destruct (py_int v1) as [bl|] eqn:Ebl; [|inversion H; auto].
+  destruct (bl <? 0)%Z eqn:Eneg; [inversion H; auto|]. apply Z.ltb_ge in Eneg.
+  destruct (zlen raw - Z.of_nat i <? zlen f0 + zlen f1 + 9 + bl)%Z eqn:El.
+  { apply Z.ltb_lt in El. inversion H. left. repeat split; auto. right.
+    exists f0, f1, (f2 :: rest), v1, bl. auto. }
+  apply Z.ltb_ge in El.
+  destruct (fields_loop G _ _ _) as [st| |e] eqn:Efl; [|inversion H; auto|].
+  - destruct (d_ck st) eqn:Eck; inversion H; subst; [|auto].
+    right. right. exists f0, f1, f2, rest, t0, v1, bl, st. repeat split; auto.
+  - exfalso. eapply (fields_loop_total G); [apply inv_init|exact Efl].
+Qed.
+
+(* ------------------------------------------------------------------ (b) consumed length *)
+
+(* the BodyLength value decode reads (second field of the frame text), when it parses *)
+Definition frame_blen (raw : str) : option Z :=
+  match frame_fields raw with
+  | _ :: f1 :: _ => match split1 61 f1 with (_, Some v) => py_int v | (_, None) => None end
+  | _ => None
+  end.
+
+Lemma ends_with_spec p s : ends_with p s = true -> exists a, s = a ++ p.
+Proof.
+  unfold ends_with. intros H. apply prefixb_app in H. destruct H as [r E].
+  exists (rev r). rewrite <- (rev_involutive s), E, rev_app_distr, rev_involutive. reflexivity.
+Qed.
+
+Lemma marker_tail_from_spec raw : forall k, (k <= 5)%nat ->
+  let t := marker_tail_from k raw in
+  (t <= k)%nat /\ exists a, raw = a ++ firstn t MARK.
+Proof.
+  induction k as [|k IH]; intros Hk; cbn [marker_tail_from].
+  - split; [lia|]. exists raw. cbn. now rewrite app_nil_r.
+  - destruct (ends_with (firstn (S k) MARK) raw) eqn:E.
+    + split; [lia|]. now apply ends_with_spec.
+    + destruct (IH ltac:(lia)) as [A B]. split; [lia|exact B].
+Qed.
+
+Lemma marker_tail_spec raw :
+  (marker_tail raw <= 5)%nat /\ (marker_tail raw <= length raw)%nat
+  /\ skipn (length raw - marker_tail raw) raw = firstn (marker_tail raw) MARK.
+Proof.
+  unfold marker_tail. destruct (marker_tail_from_spec raw 5 ltac:(lia)) as [A [a B]].
+  set (t := marker_tail_from 5 raw) in *.
+  assert (L : length (firstn t MARK) = t) by (apply firstn_length_le; change (length MARK) with 6%nat; lia).
+  assert (Hl : length raw = (length a + t)%nat).
+  { pose proof (f_equal (@length N) B) as Hl. rewrite app_length, L in Hl. exact Hl. }
+  split; [exact A|]. split; [lia|].
+  rewrite Hl. replace (length a + t - t)%nat with (length a) by lia.
+  clearbody t. rewrite B. apply skipn_app_exact.
+Qed.
+
+Lemma decode_no_marker G bs raw : find_sub MARK raw = None ->
+  decode G bs raw true = Ok (None, (zlen raw - Z.of_nat (marker_tail raw))%Z, None).
+Proof. intros E. rewrite decode_eq, E. reflexivity. Qed.
+
+(* the frame candidate lies inside what follows the marker and is not empty *)
+Lemma dec_next0_le (msg : str) : (dec_next0 msg <= length msg)%nat.
+Proof.
+  unfold dec_next0. destruct (find_sub MARK (skipn 5 msg)) as [k|] eqn:E; [|lia].
+  apply find_sub_spec in E. destruct E as [E _]. rewrite skipn_length in E. cbn [MARK length] in E. lia.
+Qed.
+
+Lemma cut_at_checksum_le (msg : str) n0 : (cut_at_checksum msg n0 <= n0)%nat.
+Proof.
+  unfold cut_at_checksum. destruct (find_sub CKSEP (firstn n0 msg)) as [ci|] eqn:Ec; [|lia].
+  destruct (find_sub SOHs _) as [j|] eqn:Ej; [|lia].
+  apply find_sub_spec in Ej. destruct Ej as [Ej _]. rewrite skipn_length in Ej. cbn [SOHs length] in Ej.
+  pose proof (firstn_le_length n0 msg). lia.
+Qed.
+
+Lemma dec_next_le (msg : str) : (dec_next msg <= length msg)%nat.
+Proof. unfold dec_next. pose proof (cut_at_checksum_le msg (dec_next0 msg)). pose proof (dec_next0_le msg). lia. Qed.
+
+Lemma dec_encoded_length i raw : length (dec_encoded i raw) = dec_next (skipn i raw).
+Proof. unfold dec_encoded. apply firstn_length_le, dec_next_le. Qed.
+
+Lemma frame_len_bounds i raw : find_sub MARK raw = Some i ->
+  (Z.of_nat i + 2 <= frame_len i raw <= zlen raw)%Z
+  /\ frame_len i raw = (Z.of_nat i + zlen (dec_encoded i raw))%Z.
+Proof.
+  intros Ei. unfold frame_len, zlen. rewrite dec_encoded_length.
+  apply find_sub_spec in Ei. destruct Ei as [Hi [r Er]].
+  pose proof (dec_next_le (skipn i raw)) as U. rewrite skipn_length in U.
+  pose proof (dec_next_ge2 r) as L. rewrite <- Er in L. lia.
+Qed.
+
+(* exact shape of the consumed length *)
+Lemma decode_consumed_shape G bs raw m n r : decode G bs raw true = Ok (m, n, r) ->
+  (find_sub MARK raw = None /\ m = None /\ n = (zlen raw - Z.of_nat (marker_tail raw))%Z) \/
+  exists i, find_sub MARK raw = Some i /\
+    ((m = None /\ n = Z.of_nat i /\ wait_case i raw)
+     \/ n = (Z.of_nat i + zlen (dec_encoded i raw))%Z).
+Proof.
+  intros H. apply decode_ok_inv in H.
+  destruct H as [(Hm & _ & E & Hn)|(i & Ei & H)]; [auto|].
+  right. exists i. split; [exact Ei|]. destruct (frame_len_bounds _ _ Ei) as [_ FL].
+  destruct H as [(Hm & _ & Hn & W)|[(_ & _ & Hn)|H]]; [auto|right; congruence|].
+  destruct H as (f0 & f1 & f2 & rest & t0 & v1 & bl & st & H). right.
+  repeat match type of H with _ /\ _ => destruct H as [_ H] end. congruence.
+Qed.
+
+(* full strength: the consumed length is always within the buffer *)
+Lemma decode_consumed_bounds G bs raw m n r : decode G bs raw true = Ok (m, n, r) ->
+  (0 <= n <= zlen raw)%Z.
+Proof.
+  intros H. apply decode_consumed_shape in H.
+  destruct H as [(_ & _ & ->)|(i & Ei & H)].
+  - pose proof (marker_tail_spec raw) as (_ & T & _). unfold zlen. lia.
+  - destruct (frame_len_bounds _ _ Ei) as [B FL]. rewrite FL in B.
+    pose proof (find_sub_spec _ _ _ Ei) as [Hi _]. unfold zlen in *.
+    destruct H as [(_ & -> & _)| ->]; lia.
+Qed.
+
+(* a returned message always comes with a positive length: junk prefix + the accepted text *)
+Lemma decode_msg_consumed G bs raw m n r : decode G bs raw true = Ok (Some m, n, r) ->
+  exists i e, find_sub MARK raw = Some i /\ r = Some e /\ e = dec_encoded i raw
+    /\ n = (Z.of_nat i + zlen e)%Z /\ (2 <= length e)%nat.
+Proof.
+  intros H. apply decode_ok_inv in H.
+  destruct H as [(? & _)|(i & Ei & [(? & _)|[(? & _)|H]])]; try discriminate.
+  destruct H as (f0 & f1 & f2 & rest & t0 & v1 & bl & st & _ & _ & _ & _ & _ & _ & _ & _ & _ & Er & Hn).
+  destruct (frame_len_bounds _ _ Ei) as [B FL].
+  exists i, (dec_encoded i raw). repeat split; auto; [congruence|]. unfold zlen in *. lia.
+Qed.
+
+Lemma decode_msg_positive G bs raw m n r : decode G bs raw true = Ok (Some m, n, r) -> (0 < n)%Z.
+Proof.
+  intros H. destruct (decode_msg_consumed _ _ _ _ _ _ H) as (i & e & _ & _ & _ & -> & L). unfold zlen. lia.
+Qed.
+
+(* when nothing is consumed: the buffer is a proper prefix of the marker (at most 5 bytes, kept for
+   the next read), or a candidate starts the buffer and decode waits for its completion *)
+Lemma decode_zero_cases G bs raw m r : decode G bs raw true = Ok (m, 0%Z, r) ->
+  m = None /\
+  ((find_sub MARK raw = None /\ (length raw <= 5)%nat /\ raw = firstn (length raw) MARK)
+   \/ (find_sub MARK raw = Some 0%nat /\ wait_case 0 raw)).
+Proof.
+  intros H. apply decode_consumed_shape in H. unfold zlen in *.
+  destruct H as [(E & Hm & Hn)|(i & Ei & [(Hm & Hn & W)|Hn])].
+  - split; [exact Hm|]. left. pose proof (marker_tail_spec raw) as (A & B & C).
+    assert (T : marker_tail raw = length raw) by lia. rewrite T in *.
+    rewrite Nat.sub_diag in C. cbn [skipn] in C. auto.
+  - split; [exact Hm|]. right. assert (i = 0%nat) by lia. subst i. auto.
+  - destruct (frame_len_bounds _ _ Ei) as [B FL]. unfold zlen in *. lia.
+Qed.
+
+(* whatever is consumed beyond the junk prefix is exactly the frame candidate: nothing that
+   follows it in the buffer is lost (a rejected frame is dropped alone) *)
+Lemma decode_consumes_candidate G bs raw m n r i : decode G bs raw true = Ok (m, n, r) ->
+  find_sub MARK raw = Some i ->
+  (m = None /\ n = Z.of_nat i /\ wait_case i raw)
+  \/ (n = (Z.of_nat i + zlen (dec_encoded i raw))%Z
+      /\ raw = firstn i raw ++ dec_encoded i raw ++ skipn (Z.to_nat n) raw).
+Proof.
+  intros H Ei. apply decode_consumed_shape in H.
+  destruct H as [(E & _)|(i' & Ei' & H)]; [congruence|].
+  assert (i' = i) by congruence. subst i'. destruct H as [H|Hn]; [auto|]. right. split; [exact Hn|].
+  subst n. unfold zlen. rewrite <- Nat2Z.inj_add, Nat2Z.id, dec_encoded_length.
+  rewrite <- skipn_skipn'. unfold dec_encoded.
+  rewrite (firstn_skipn (dec_next (skipn i raw)) (skipn i raw)). now rewrite firstn_skipn.
+Qed.
+
+(* ------------------------------------------------------------------ (c) what acceptance means *)
+
+Definition is_some {A} (o : option A) : bool := match o with Some _ => true | None => false end.
+
+Definition field_tag (f : str) : option str :=
+  match split1 61 f with (t, Some _) => Some t | (_, None) => None end.
+
+Lemma join_snoc_empty sep l : l <> [] -> join sep (l ++ [[]]) = join sep l ++ sep.
+Proof.
+  induction l as [|p l IH]; [congruence|]. intros _.
+  destruct l as [|p' l].
+  - cbn. now rewrite app_nil_r.
+  - change ((p :: p' :: l) ++ [[]]) with (p :: ((p' :: l) ++ [[]])).
+    rewrite join_cons by (destruct l; discriminate).
+    rewrite IH by discriminate. change (join sep (p :: p' :: l)) with (p ++ sep ++ join sep (p' :: l)).
+    rewrite <- !app_assoc. reflexivity.
+Qed.
+
+Lemma dec_fields_text i raw :
+  dec_encoded i raw = join SOHs (dec_fields i raw)
+  \/ (dec_fields i raw <> [] /\ dec_encoded i raw = join SOHs (dec_fields i raw) ++ SOHs).
+Proof.
+  unfold dec_fields, strip_last_empty. set (e := dec_encoded i raw).
+  pose proof (join_split_on 1 e) as J. fold SOHs in J.
+  destruct (rev (split_on 1 e)) as [|[|c p] r] eqn:R; auto.
+  assert (E : split_on 1 e = rev r ++ [[]]).
+  { rewrite <- (rev_involutive (split_on 1 e)), R. reflexivity. }
+  destruct (rev r) as [|q qs] eqn:Q.
+  - left. rewrite E in J. cbn in J. cbn. auto.
+  - right. split; [discriminate|]. rewrite E in J. rewrite join_snoc_empty in J by discriminate. auto.
 Qed.
 
 Lemma split1_field t v : ~ In 61 t -> split1 61 (field t v) = (t, Some v).
@@ -789,14 +611,304 @@ Proof.
   - rewrite IH; [reflexivity|]. intros F. apply H. now right.
 Qed.
 
-Lemma last_cks_replace t v v' pre post : ~ In 61 t -> t <> T10 ->
-  last_cks (pre ++ field t v :: post) = last_cks (pre ++ field t v' :: post).
+Definition P10 : str := T10 ++ [61].        (* "10=" *)
+
+Lemma field_tag_T10_prefix f : field_tag f = Some T10 -> prefixb P10 f = true.
 Proof.
-  intros H61 H10. apply streqb_neq in H10.
-  induction pre as [|p pre IH]; cbn [app last_cks].
-  - rewrite !split1_field by exact H61. now rewrite H10.
+  unfold field_tag. destruct (split1 61 f) as [t [v|]] eqn:S; [|discriminate].
+  intros H. inversion H. subst t. apply split1_some in S. subst f.
+  change (T10 ++ 61 :: v) with (P10 ++ v). apply prefixb_self_app.
+Qed.
+
+Lemma no_cksep_tl : forall A : str, (forall k, prefixb CKSEP (skipn k A) = false) ->
+  Forall (fun f => prefixb P10 f = false) (tl (split_on 1 A)).
+Proof.
+  induction A as [|x A IH]; intros H; [constructor|].
+  assert (H' : forall k, prefixb CKSEP (skipn k A) = false) by (intros k; apply (H (S k))).
+  specialize (IH H'). cbn [split_on].
+  destruct (N.eqb x 1) eqn:E.
+  - apply N.eqb_eq in E. subst x. cbn [tl].
+    destruct (split_on 1 A) as [|f l] eqn:S; [constructor|].
+    constructor; [|exact IH].
+    destruct (prefixb P10 f) eqn:P; [|reflexivity].
+    destruct (split_on_hd _ _ _ _ S) as [rest ->].
+    specialize (H 0%nat). cbn [skipn] in H.
+    change CKSEP with (1 :: P10) in H. cbn [prefixb] in H. rewrite N.eqb_refl in H. cbn [andb] in H.
+    now rewrite (prefixb_app_r _ _ rest P) in H.
+  - destruct (split_on 1 A) as [|p ps] eqn:S; [constructor|]. exact IH.
+Qed.
+
+Lemma strip_last_empty_snoc_empty (X : list str) : strip_last_empty (X ++ [[]]) = X.
+Proof. unfold strip_last_empty. rewrite rev_unit. apply rev_involutive. Qed.
+
+Lemma strip_last_empty_snoc (X : list str) (W : str) : W <> [] -> strip_last_empty (X ++ [W]) = X ++ [W].
+Proof. intros H. unfold strip_last_empty. rewrite rev_unit. destruct W; [congruence|reflexivity]. Qed.
+
+Lemma strip_last_empty_cases (l : list str) :
+  strip_last_empty l = l \/ l = strip_last_empty l ++ [[]].
+Proof.
+  unfold strip_last_empty. destruct (rev l) as [|[|c w] r] eqn:R; auto.
+  right. rewrite <- (rev_involutive l), R. reflexivity.
+Qed.
+
+Lemma cut_fields (msg : str) (n0 : nat) :
+  let fs := strip_last_empty (split_on 1 (firstn (cut_at_checksum msg n0) msg)) in
+  Forall (fun f => prefixb P10 f = false) (tl fs)
+  \/ exists FA v, fs = FA ++ [field T10 v] /\ FA <> []
+                 /\ Forall (fun f => prefixb P10 f = false) (tl FA).
+Proof.
+  cbv zeta. unfold cut_at_checksum. set (head := firstn n0 msg).
+  destruct (find_sub CKSEP head) as [ci|] eqn:Ec.
+  - (* a CheckSum separator at offset ci *)
+    right. pose proof (find_sub_min _ _ _ Ec) as Hmin.
+    apply find_sub_spec in Ec. destruct Ec as [Hci [B EB]].
+    set (A := firstn ci head).
+    assert (LA : length A = ci) by (apply firstn_length_le; lia).
+    assert (EH : head = A ++ 1 :: P10 ++ B).
+    { rewrite <- (firstn_skipn ci head). fold A. now rewrite EB. }
+    assert (HA : forall k, prefixb CKSEP (skipn k A) = false).
+    { intros k. destruct (prefixb CKSEP (skipn k A)) eqn:P; [|reflexivity].
+      assert (Hk : (k + 4 <= ci)%nat).
+      { apply prefixb_length in P. rewrite skipn_length in P. cbn in P. lia. }
+      rewrite <- (Hmin k ltac:(lia)). rewrite EH, skipn_app.
+      replace (k - length A)%nat with 0%nat by lia. cbn [skipn].
+      symmetry. now apply prefixb_app_r. }
+    pose proof (no_cksep_tl A HA) as HtlA.
+    assert (ES : skipn (ci + 1) head = P10 ++ B).
+    { rewrite EH, skipn_app, LA. replace (ci + 1 - ci)%nat with 1%nat by lia.
+      rewrite skipn_all2 by lia. reflexivity. }
+    rewrite ES.
+    destruct (find_sub SOHs (P10 ++ B)) as [j|] eqn:Ej.
+    + pose proof (find_sub_min _ _ _ Ej) as Hj.
+      apply find_sub_spec in Ej. destruct Ej as [Hjl [B' EB']].
+      set (R := P10 ++ B) in *. set (V := firstn j R).
+      assert (HV : ~ In 1 V) by (apply no_char_firstn; exact Hj).
+      assert (ER : R = V ++ 1 :: B') by (rewrite <- (firstn_skipn j R); fold V; now rewrite EB').
+      assert (LV : length V = j).
+      { apply firstn_length_le. lia. }
+      assert (Ee : firstn (ci + 1 + j + 1) msg = A ++ 1 :: V ++ [1]).
+      { assert (Hle : (ci + 1 + j + 1 <= length head)%nat).
+        { rewrite EH. fold R. rewrite ER, !app_length. cbn [length]. rewrite app_length. cbn [length]. lia. }
+        assert (Hn0 : (ci + 1 + j + 1 <= n0)%nat).
+        { unfold head in Hle. rewrite firstn_length in Hle. lia. }
+        rewrite <- (firstn_firstn_le _ n0 msg Hn0). fold head. rewrite EH. fold R. rewrite ER.
+        rewrite firstn_app, LA. rewrite (firstn_all2 A) by lia.
+        replace (ci + 1 + j + 1 - ci)%nat with (S (j + 1)) by lia. cbn [firstn].
+        rewrite firstn_app, LV. rewrite (firstn_all2 V) by lia.
+        replace (j + 1 - j)%nat with 1%nat by lia. reflexivity. }
+      rewrite Ee.
+      change (A ++ 1 :: V ++ [1]) with (A ++ 1 :: (V ++ 1 :: [])).
+      rewrite !split_on_app, (split_on_nosep 1 V HV). cbn [split_on].
+      change (split_on 1 A ++ [V] ++ [[]]) with (split_on 1 A ++ [V] ++ [[]]).
+      rewrite app_assoc, strip_last_empty_snoc_empty.
+      (* V starts with "10=" *)
+      assert (EV : exists v, V = field T10 v).
+      { unfold V, R, P10, T10. unfold R, P10, T10 in EB'.
+        destruct j as [|[|[|j]]]; cbn in EB'; try discriminate.
+        exists (firstn j B). reflexivity. }
+      destruct EV as [v EV]. exists (split_on 1 A), v. rewrite EV.
+      split; [reflexivity|]. split; [apply split_on_nonempty|exact HtlA].
+    + (* no SOH after it: the CheckSum field runs to the end of the candidate *)
+      pose proof (find_sub_none _ _ Ej) as Hn.
+      assert (HR : ~ In 1 (P10 ++ B)).
+      { rewrite <- (firstn_all (P10 ++ B)). apply no_char_firstn. intros k _. apply Hn. }
+      fold head. rewrite EH.
+      rewrite split_on_app, (split_on_nosep 1 _ HR).
+      rewrite strip_last_empty_snoc by discriminate.
+      exists (split_on 1 A), B. split; [reflexivity|]. split; [apply split_on_nonempty|exact HtlA].
+  - (* no separator at all *)
+    left. fold head. pose proof (no_cksep_tl head (find_sub_none _ _ Ec)) as H.
+    destruct (strip_last_empty_cases (split_on 1 head)) as [->|E]; [exact H|].
+    rewrite E in H. destruct (strip_last_empty (split_on 1 head)) as [|f l]; [constructor|].
+    cbn [app tl] in H. apply Forall_app in H. tauto.
+Qed.
+
+Lemma last_cks_none fs : Forall (fun f => field_tag f <> Some T10) fs -> last_cks fs = None.
+Proof.
+  induction 1 as [|f fs Hf _ IH]; [reflexivity|]. cbn [last_cks]. rewrite IH.
+  unfold field_tag in Hf. destruct (split1 61 f) as [t [v|]]; [|reflexivity].
+  destruct (str_eqb t T10) eqn:E; [|reflexivity]. apply streqb_eq in E. subst. congruence.
+Qed.
+
+Lemma last_cks_snoc FA v : last_cks (FA ++ [field T10 v]) = Some v.
+Proof.
+  induction FA as [|f FA IH]; cbn [app last_cks].
+  - rewrite split1_field by (intros [F|[F|[]]]; discriminate). now rewrite streqb_refl.
   - now rewrite IH.
 Qed.
+
+Lemma not_p10_tag f : prefixb P10 f = false -> field_tag f <> Some T10.
+Proof. intros H F. apply field_tag_T10_prefix in F. congruence. Qed.
+
+(* three ASCII digits whose value is c < 256 are exactly "%0.3i" % c *)
+Lemma three_digits_fmt03 v c : three_digits v = true -> digits_value v = Z.of_N c -> c < 256 ->
+  v = fmt03 c.
+Proof.
+  unfold three_digits. rewrite andb_true_iff. intros [L D] V Hc.
+  destruct v as [|d1 [|d2 [|d3 [|]]]]; try discriminate. clear L.
+  cbn [forallb] in D. rewrite !andb_true_iff in D. destruct D as (D1 & D2 & D3 & _).
+  unfold is_digit in D1, D2, D3. rewrite andb_true_iff, !N.leb_le in D1, D2, D3.
+  destruct (fmt03_spec c Hc) as (e1 & e2 & e3 & -> & E1 & E2 & E3 & Ev & _).
+  apply ascii_digit_range in E1, E2, E3.
+  unfold digits_value in V. cbn [fold_left] in V.
+  assert (d1 = e1 /\ d2 = e2 /\ d3 = e3) as (-> & -> & ->) by lia. reflexivity.
+Qed.
+
+(* Every returned message (full strength):
+   - its raw text is the slice of the input that starts at the marker, and the consumed length is the
+     junk before the marker plus that text;
+   - BeginString is the expected one, the second field is a BodyLength that is a length and does not
+     exceed what the buffer holds;
+   - the CheckSum field is the LAST field of the text and the only one with tag "10"; its value is
+     exactly the three ASCII digits "%0.3i" of the sum of ALL bytes before "10=" modulo 256;
+   - the text is those bytes, "10=ddd", and at most one SOH. *)
+Lemma decode_accept_sound G bs raw m n r : decode G bs raw true = Ok (Some m, n, r) ->
+  exists i, find_sub MARK raw = Some i /\ r = Some (dec_encoded i raw)
+    /\ n = (Z.of_nat i + zlen (dec_encoded i raw))%Z /\
+    let fs := dec_fields i raw in
+    let before := join SOHs (removelast fs) ++ SOHs in
+    let ddd := fmt03 (sum_codes before mod 256) in
+    (3 <= length fs)%nat
+    /\ (exists t0 v1 bl, nth 0 fs [] = field t0 bs /\ nth 1 fs [] = field T9 v1 /\ py_int v1 = Some bl
+          /\ (0 <= bl)%Z /\ (zlen (nth 0 fs []) + zlen (nth 1 fs []) + 9 + bl <= zlen raw - Z.of_nat i)%Z)
+    /\ fs = removelast fs ++ [field T10 ddd]
+    /\ Forall (fun f => field_tag f <> Some T10) (removelast fs)
+    /\ exists tail, (tail = [] \/ tail = SOHs) /\ dec_encoded i raw = before ++ field T10 ddd ++ tail.
+Proof.
+  intros H. pose proof (decode_ok_inv _ _ _ _ _ _ H) as I.
+  destruct I as [(? & _)|(i & Ei & [(? & _)|[(? & _)|I]])]; try discriminate.
+  destruct I as (f0 & f1 & f2 & rest & t0 & v1 & bl & st & Ef & S0 & S1 & Ebl & Hbl & Hle & Efl & Eck & _ & Er & Hn).
+  exists i. split; [exact Ei|]. split; [exact Er|].
+  destruct (frame_len_bounds _ _ Ei) as [_ FL]. split; [congruence|]. cbv zeta.
+  split; [rewrite Ef; cbn [length]; lia|]. split.
+  { exists t0, v1, bl. rewrite Ef. cbn [nth]. pose proof (split1_some _ _ _ _ S0) as A0.
+    pose proof (split1_some _ _ _ _ S1) as A1. rewrite A0 at 1. rewrite A1 at 1. auto. }
+  pose proof (fields_loop_last_ck _ _ _ _ _ Efl) as L. rewrite Eck in L.
+  destruct (first_field_has_eq _ _ _ _ Ei Ef) as [v0 S0'].
+  assert (T0 : field_tag f0 <> Some T10) by (unfold field_tag; rewrite S0'; discriminate).
+  pose proof (cut_fields (skipn i raw) (dec_next0 (skipn i raw))) as C. cbv zeta in C.
+  fold (dec_next (skipn i raw)) in C. fold (dec_encoded i raw) in C. fold (dec_fields i raw) in C.
+  destruct C as [C|(FA & v & EF & HFA & C)].
+  - (* no CheckSum field at all: cannot have been accepted *)
+    exfalso. rewrite Ef in C. cbn [tl] in C.
+    rewrite (last_cks_none (dec_fields i raw)) in L; [discriminate|].
+    rewrite Ef. constructor; [exact T0|].
+    eapply Forall_impl; [|exact C]. intros f. apply not_p10_tag.
+  - assert (RL : removelast (dec_fields i raw) = FA) by (rewrite EF; apply removelast_last).
+    rewrite RL. rewrite EF, last_cks_snoc in L. symmetry in L. unfold cks_verdict in L.
+    apply andb_true_iff in L. destruct L as [L3 Lv]. apply Z.eqb_eq in Lv.
+    unfold dec_ck in Lv. rewrite <- EF, RL in Lv.
+    assert (Esum : (sum_codes (join SOHs FA) + 1) mod 256 = sum_codes (join SOHs FA ++ SOHs) mod 256).
+    { unfold SOHs. rewrite sum_codes_app. reflexivity. }
+    assert (Ev : v = fmt03 (sum_codes (join SOHs FA ++ SOHs) mod 256)).
+    { rewrite <- Esum. apply three_digits_fmt03; [exact L3|now symmetry|apply N.mod_lt; lia]. }
+    rewrite <- Ev. split; [exact EF|]. split.
+    + destruct FA as [|a FA']; [congruence|].
+      assert (a = f0) by (rewrite EF in Ef; cbn in Ef; now inversion Ef). subst a.
+      constructor; [exact T0|]. cbn [tl] in C.
+      eapply Forall_impl; [|exact C]. intros f. apply not_p10_tag.
+    + assert (L2 : (2 <= length (dec_fields i raw))%nat) by (rewrite Ef; cbn [length]; lia).
+      assert (EL : last (dec_fields i raw) [] = field T10 v) by (rewrite EF; apply last_last).
+      destruct (dec_fields_text i raw) as [E|[_ E]]; rewrite E, (join_removelast _ _ L2), RL, EL.
+      * exists []. split; [auto|]. now rewrite app_nil_r, <- !app_assoc.
+      * exists SOHs. split; [auto|]. now rewrite <- !app_assoc.
+Qed.
+
+(* ------------------------------------------------------------------ (d) progress of the reader *)
+
+Definition status {A B} (x : A * B * N) : N := snd x.
+Definition residual {A B} (x : str * A * B) : str := fst (fst x).
+Definition delivered {A B} (x : A * list (message * str) * B) : list (message * str) := snd (fst x).
+
+Lemma decode_msg_nonempty G bs raw m n r : decode G bs raw true = Ok (Some m, n, r) -> raw <> [].
+Proof.
+  intros H. pose proof (decode_msg_positive _ _ _ _ _ _ H) as P.
+  pose proof (decode_consumed_bounds _ _ _ _ _ _ H) as B. destruct raw; [cbn in B; lia|discriminate].
+Qed.
+
+(* any positive consumed length strictly shortens the buffer *)
+Lemma consumed_shrinks G bs buf m n r :
+  decode G bs buf true = Ok (m, n, r) -> (0 < n)%Z ->
+  (length (skipn (Z.to_nat n) buf) < length buf)%nat.
+Proof.
+  intros D Hn. pose proof (decode_consumed_bounds _ _ _ _ _ _ D) as B. unfold zlen in B.
+  rewrite skipn_length. lia.
+Qed.
+
+(* full strength: the inner loop of socket_read_task always ends within len(buffer) + 1 iterations
+   (status 1 = decode raised, status 2 = fuel exhausted: both impossible), although it now goes on
+   after a rejected candidate *)
+Lemma reader_loop_terminates G bs : forall fuel buf acc,
+  (length buf < fuel)%nat -> status (reader_loop G bs fuel buf acc) = 0.
+Proof.
+  induction fuel as [|f IH]; intros buf acc Hlen; [lia|].
+  cbn [reader_loop].
+  destruct (decode_total G bs buf) as (m & n & r & D). rewrite D.
+  destruct (0 <? n)%Z eqn:En.
+  - apply Z.ltb_lt in En. pose proof (consumed_shrinks _ _ _ _ _ _ D En) as Hlt.
+    destruct m as [m|]; [destruct r|]; apply IH; lia.
+  - destruct m as [m|]; [|destruct r; reflexivity].
+    apply Z.ltb_ge in En. pose proof (decode_msg_positive _ _ _ _ _ _ D). lia.
+Qed.
+
+Lemma reader_step_terminates G bs buf chunk : status (reader_step G bs buf chunk) = 0.
+Proof. unfold reader_step. apply reader_loop_terminates. lia. Qed.
+
+(* each iteration that goes on - a delivery, or a rejection with a positive consumed length -
+   strictly shortens the buffer; a delivery always has a positive consumed length *)
+Lemma reader_iteration_shrinks G bs buf m n r :
+  decode G bs buf true = Ok (m, n, r) -> (m <> None \/ 0 < n)%Z ->
+  (0 < n)%Z /\ (length (skipn (Z.to_nat n) buf) < length buf)%nat.
+Proof.
+  intros D H. assert (Hn : (0 < n)%Z).
+  { destruct H as [H|H]; [|exact H]. destruct m as [m|]; [|congruence].
+    eapply decode_msg_positive; eauto. }
+  split; [exact Hn|]. eapply consumed_shrinks; eauto.
+Qed.
+
+(* deliveries accumulate in order *)
+Lemma reader_loop_acc G bs : forall fuel buf acc,
+  reader_loop G bs fuel buf acc =
+  (residual (reader_loop G bs fuel buf []), rev acc ++ delivered (reader_loop G bs fuel buf []),
+   status (reader_loop G bs fuel buf [])).
+Proof.
+  induction fuel as [|f IH]; intros buf acc; cbn [reader_loop].
+  - cbn. now rewrite app_nil_r.
+  - destruct (decode G bs buf true) as [[[m n] r]|e]; [|cbn; now rewrite app_nil_r].
+    destruct m as [m|].
+    + destruct r as [r|].
+      * rewrite (IH _ ((m, r) :: acc)), (IH _ [(m, r)]). cbn [rev residual delivered status fst snd app].
+        now rewrite <- app_assoc.
+      * rewrite (IH _ ((m, []) :: acc)), (IH _ [(m, [])]). cbn [rev residual delivered status fst snd app].
+        now rewrite <- app_assoc.
+    + destruct (0 <? n)%Z; [|destruct r; cbn; now rewrite app_nil_r].
+      rewrite (IH _ acc). destruct r; reflexivity.
+Qed.
+
+(* A rejected frame does not take its successor with it, and the successor does not have to wait
+   for another read: if decode rejects the head of the buffer with a positive consumed length (the
+   junk and the candidate alone, see decode_consumes_candidate) and what follows decodes to a
+   message, that message is the first delivery of the SAME reader step. *)
+Lemma reader_bad_then_good G bs buf chunk n r m n2 r2 :
+  decode G bs (buf ++ chunk) true = Ok (None, n, r) -> (0 < n)%Z ->
+  decode G bs (skipn (Z.to_nat n) (buf ++ chunk)) true = Ok (Some m, n2, Some r2) ->
+  exists more, delivered (reader_step G bs buf chunk) = (m, r2) :: more
+               /\ status (reader_step G bs buf chunk) = 0.
+Proof.
+  intros D1 Hn D2. pose proof (reader_step_terminates G bs buf chunk) as T.
+  split with (x := delivered (reader_loop G bs (length (buf ++ chunk) - 1)
+       (if (0 <? n2)%Z then skipn (Z.to_nat n2) (skipn (Z.to_nat n) (buf ++ chunk))
+        else skipn (Z.to_nat n) (buf ++ chunk)) [])).
+  split; [|exact T]. clear T.
+  pose proof (consumed_shrinks _ _ _ _ _ _ D1 Hn) as Hlt.
+  unfold reader_step. set (b := buf ++ chunk) in *.
+  destruct (length b) as [|k] eqn:Lb; [lia|].
+  cbn [reader_loop]. rewrite D1. replace (0 <? n)%Z with true by (symmetry; now apply Z.ltb_lt).
+  replace (S k - 1)%nat with k by lia.
+  destruct r; cbn [reader_loop]; rewrite D2, reader_loop_acc; reflexivity.
+Qed.
+
+(* ------------------------------------------------------------------ single-byte substitution *)
 
 Lemma join_sum_replace sep pre post :
   exists K, forall f : str, sum_codes (join sep (pre ++ f :: post)) = K + sum_codes f.
@@ -822,51 +934,56 @@ Proof.
   lia.
 Qed.
 
-Lemma dec_ck_replace pre t a x y c post :
-  post <> [] -> x < 256 -> y < 256 -> x <> y ->
-  dec_ck (pre ++ field t (a ++ x :: c) :: post) <> dec_ck (pre ++ field t (a ++ y :: c) :: post).
+Lemma fmt03_inj a b : a < 256 -> b < 256 -> fmt03 a = fmt03 b -> a = b.
 Proof.
-  intros Hp Hx Hy Hxy. unfold dec_ck.
-  assert (R : forall f : str, removelast (pre ++ f :: post) = pre ++ f :: removelast post).
-  { intros f. rewrite removelast_app by discriminate. f_equal.
-    destruct post; [congruence|reflexivity]. }
-  rewrite !R. destruct (join_sum_replace SOHs pre (removelast post)) as [K HK].
-  rewrite !HK. unfold field. rewrite !sum_codes_app, !sum_codes_cons, !sum_codes_app, !sum_codes_cons.
-  intros E. apply Hxy.
-  apply (mod256_cancel (K + sum_codes t + 61 + sum_codes a + sum_codes c + 1)); [exact Hx|exact Hy|].
-  etransitivity; [|etransitivity; [exact E|]]; f_equal; lia.
+  intros Ha Hb E. destruct (fmt03_spec a Ha) as (d1 & d2 & d3 & E1 & _ & _ & _ & V1 & _).
+  destruct (fmt03_spec b Hb) as (e1 & e2 & e3 & E2 & _ & _ & _ & V2 & _).
+  rewrite E1, E2 in E. inversion E. subst. congruence.
 Qed.
 
-(* If a frame is returned as a message, then the text in which one byte inside the value of one
-   field (not a CheckSum field, not the last field) is replaced - the field structure otherwise
-   unchanged, i.e. no SOH or marker introduced or destroyed - is not returned as a message. *)
-Lemma decode_subst_detected G bs raw raw' pre t a x y c post :
-  frame_fields raw = pre ++ field t (a ++ x :: c) :: post ->
-  frame_fields raw' = pre ++ field t (a ++ y :: c) :: post ->
-  post <> [] -> t <> T10 -> ~ In 61 t -> x <> y -> x < 256 -> y < 256 ->
+Lemma field_inj t v v' : field t v = field t v' -> v = v'.
+Proof. unfold field. intros H. apply app_inv_head in H. now inversion H. Qed.
+
+Lemma snoc_cases {A} (l : list A) : l = [] \/ exists l0 x, l = l0 ++ [x].
+Proof. destruct l as [|a l] using rev_ind; [now left|right; eauto]. Qed.
+
+Definition cks_of (fa : list str) : str := field T10 (fmt03 (sum_codes (join SOHs fa ++ SOHs) mod 256)).
+
+(* If a frame is returned as a message, then the text in which one byte of one field is replaced
+   by another byte - the list of fields otherwise unchanged, i.e. the change neither creates nor
+   destroys a SOH, a marker or the CheckSum separator - is not returned as a message.  This covers
+   every position: tags, "=", values, BeginString, BodyLength and the CheckSum field itself. *)
+Lemma decode_subst_detected G bs raw raw' pre a x y c post :
+  frame_fields raw = pre ++ (a ++ x :: c) :: post ->
+  frame_fields raw' = pre ++ (a ++ y :: c) :: post ->
+  x <> y -> x < 256 -> y < 256 ->
   (exists m n r, decode G bs raw true = Ok (Some m, n, r)) ->
   forall m' n' r', decode G bs raw' true <> Ok (Some m', n', r').
 Proof.
-  intros F F' Hp H10 H61 Hxy Hx Hy (m & n & r & D) m' n' r' D'.
+  intros F F' Hxy Hx Hy (m & n & r & D) m' n' r' D'.
   assert (A : forall raw0 m0 n0 r0, decode G bs raw0 true = Ok (Some m0, n0, r0) ->
-              exists v z, last_cks (frame_fields raw0) = Some v /\ py_int v = Some z
-                          /\ Z.of_N (dec_ck (frame_fields raw0)) = z).
-  { intros raw0 m0 n0 r0 D0. apply decode_ok_inv in D0.
-    destruct D0 as [(? & _)|(i & Ei & [(? & _)|I])]; try discriminate.
-    destruct I as (f0 & f1 & f2 & rest & t0 & v1 & bl & Ef & _ & _ & _ & _ & _ & [(? & _)|I]);
-      [discriminate|].
-    destruct I as (st & Efl & Eck & _). unfold frame_fields. rewrite Ei.
-    pose proof (fields_loop_last_ck _ _ _ _ _ Efl) as L.
-    destruct (last_cks (dec_fields i raw0)) as [v|].
-    - destruct L as (z & Hz & Hd). exists v, z. repeat split; auto.
-      rewrite Eck in Hd. symmetry in Hd. now apply Z.eqb_eq in Hd.
-    - cbn in L. congruence. }
-  destruct (A _ _ _ _ D) as (v & z & L & Hz & Hc).
-  destruct (A _ _ _ _ D') as (v' & z' & L' & Hz' & Hc').
-  rewrite F in L, Hc. rewrite F' in L', Hc'.
-  rewrite (last_cks_replace t _ (a ++ y :: c) pre post H61 H10) in L.
-  rewrite L in L'. inversion L'. subst v'. rewrite Hz in Hz'. inversion Hz'. subst z'.
-  apply (dec_ck_replace pre t a x y c post Hp Hx Hy Hxy). lia.
+              frame_fields raw0 = removelast (frame_fields raw0) ++ [cks_of (removelast (frame_fields raw0))]).
+  { intros raw0 m0 n0 r0 D0. apply decode_accept_sound in D0.
+    destruct D0 as (i & Ei & _ & _ & _ & _ & E & _). unfold frame_fields. rewrite Ei. exact E. }
+  pose proof (A _ _ _ _ D) as E. pose proof (A _ _ _ _ D') as E'.
+  rewrite F in E. rewrite F' in E'. clear A D D' F F'.
+  destruct (snoc_cases post) as [->|(post0 & l & ->)].
+  - (* the changed field is the CheckSum field: it is determined by what precedes it *)
+    change (pre ++ [a ++ x :: c]) with (pre ++ [a ++ x :: c]) in E.
+    rewrite removelast_last in E, E'. apply app_inv_head in E, E'.
+    inversion E as [E1]. inversion E' as [E2]. rewrite <- E2 in E1.
+    apply app_inv_head in E1. inversion E1. contradiction.
+  - (* another field: the sum moves by a non-zero amount below 256, the CheckSum field stays *)
+    assert (R : forall f : str, pre ++ f :: post0 ++ [l] = (pre ++ f :: post0) ++ [l])
+      by (intros f; now rewrite <- app_assoc).
+    rewrite R, removelast_last in E, E'. apply app_inv_head in E, E'.
+    inversion E as [E1]. inversion E' as [E2]. rewrite E1 in E2. unfold cks_of in E2.
+    apply field_inj in E2. apply fmt03_inj in E2; try (apply N.mod_lt; lia).
+    destruct (join_sum_replace SOHs pre post0) as [K HK].
+    rewrite !sum_codes_app, !HK, !sum_codes_app, !sum_codes_cons in E2.
+    apply Hxy.
+    apply (mod256_cancel (K + sum_codes a + sum_codes c + sum_codes SOHs)); [exact Hx|exact Hy|].
+    etransitivity; [|etransitivity; [exact E2|]]; f_equal; lia.
 Qed.
 
 (* ------------------------------------------------------------------ witnesses (| stands for SOH) *)
@@ -910,176 +1027,167 @@ Definition dec_summary (raw : str) : option (bool * Z * bool) :=
   | Exc _ => None
   end.
 
-(* D7: "decode(silent=True) never raises" is false, for each of the three kinds; each witness
-   violates exactly one hypothesis of decode_no_raise *)
-Lemma raise_witnesses :
-  dec w_blen = Exc EValue /\ dec w_cks = Exc EValue /\ dec w_tag = Exc EFIXMessage /\ dec w_dup = Exc EAttribute.
-Proof. repeat split; vm_compute; reflexivity. Qed.
+(* 8=FIX.4.4|9=12|35=0|58=298|10=032| *)
+Definition w_lz_subst : str :=
+  [56; 61; 70; 73; 88; 46; 52; 46; 52; 1; 57; 61; 49; 50; 1; 51; 53; 61; 48; 1; 53; 56; 61; 50; 57; 56; 1; 49; 48; 61; 48; 51; 50; 1].
+(* 8=FIX.4.2|9=5|35=0|10=161| *)
+Definition w_badbs : str :=
+  [56; 61; 70; 73; 88; 46; 52; 46; 50; 1; 57; 61; 53; 1; 51; 53; 61; 48; 1; 49; 48; 61; 49; 54; 49; 1].
+(* 8=FIX.4 *)
+Definition w_frag : str := [56; 61; 70; 73; 88; 46; 52].
+Definition run2 (first : str) := reader_run TBL BS [] [first ++ w_good; w_good].
 
-Lemma raise_witnesses_hyps :
-  (tags_int (frame_fields w_blen), blen_int (frame_fields w_blen), cks_int (frame_fields w_blen),
-   no_dup_after_group TBL (frame_fields w_blen)) = (true, false, true, true)
-  /\ (tags_int (frame_fields w_cks), blen_int (frame_fields w_cks), cks_int (frame_fields w_cks),
-      no_dup_after_group TBL (frame_fields w_cks)) = (true, true, false, true)
-  /\ (tags_int (frame_fields w_tag), blen_int (frame_fields w_tag), cks_int (frame_fields w_tag),
-      no_dup_after_group TBL (frame_fields w_tag)) = (false, true, true, true)
-  /\ (tags_int (frame_fields w_dup), blen_int (frame_fields w_dup), cks_int (frame_fields w_dup),
-      no_dup_after_group TBL (frame_fields w_dup)) = (true, true, true, false).
-Proof. repeat split; vm_compute; reflexivity. Qed.
+(* 8=FIX.4.4|9=5|35=J|70=a|78=1|79=A|70=b|10=151|   (w_dup with a correct checksum) *)
+Definition w_dup_ok : str := [56; 61; 70; 73; 88; 46; 52; 46; 52; 1; 57; 61; 53; 1; 51; 53; 61; 74; 1; 55; 48; 61; 97; 1; 55; 56; 61; 49; 1; 55; 57; 61; 65; 1; 55; 48; 61; 98; 1; 49; 48; 61; 49; 53; 49; 1].
+(* 8=FIX.4.4|9=16|35=0|58=8=FIX.x|10=130|   (an encoder frame whose value contains the marker) *)
+Definition w_d5 : str := [56; 61; 70; 73; 88; 46; 52; 46; 52; 1; 57; 61; 49; 54; 1; 51; 53; 61; 48; 1; 53; 56; 61; 56; 61; 70; 73; 88; 46; 120; 1; 49; 48; 61; 49; 51; 48; 1].
+(* 8=FIX.4.4|9=12|35=0|58=2<NUL>99|10=032|   (w_lz with a NUL inserted in the value) *)
+Definition w_nul : str := [56; 61; 70; 73; 88; 46; 52; 46; 52; 1; 57; 61; 49; 50; 1; 51; 53; 61; 48; 1; 53; 56; 61; 50; 0; 57; 57; 1; 49; 48; 61; 48; 51; 50; 1].
+(* 8=FIX.4.4|9=500|35=0|10=000| *)
+Definition w_oversize : str := [56; 61; 70; 73; 88; 46; 52; 46; 52; 1; 57; 61; 53; 48; 48; 1; 51; 53; 61; 48; 1; 49; 48; 61; 48; 48; 48; 1].
+(* 8=FIX.4.4|9=12|35=0|58=299|10=033| *)
+Definition w_lz_ck : str := [56; 61; 70; 73; 88; 46; 52; 46; 52; 1; 57; 61; 49; 50; 1; 51; 53; 61; 48; 1; 53; 56; 61; 50; 57; 57; 1; 49; 48; 61; 48; 51; 51; 1].
 
-Lemma no_raise_refuted : exists raw e, decode TBL BS raw true = Exc e.
-Proof. exists w_blen, EValue. vm_compute. reflexivity. Qed.
-
-(* non-vacuity of decode_no_raise: a three-level nested group frame meets every hypothesis and is
-   returned as a message *)
-Lemma no_raise_nonvacuous :
-  tags_int (frame_fields w_nested) = true /\ blen_int (frame_fields w_nested) = true
-  /\ cks_int (frame_fields w_nested) = true /\ no_dup_after_group TBL (frame_fields w_nested) = true
-  /\ dec_summary w_nested = Some (true, 130%Z, true).
-Proof. repeat split; vm_compute; reflexivity. Qed.
-
-(* D8: consumed length outside [0, len] *)
-Lemma consumed_negative_refuted :
-  exists raw m n r, decode TBL BS raw true = Ok (m, n, r) /\ (n < 0)%Z.
+(* repaired (R10a-d): the frames that used to raise ValueError / FIXMessageError / AttributeError
+   are rejected and consumed alone; a root tag repeated after a closed group is marked like any
+   other repeated root tag and the message is returned *)
+Lemma no_raise_examples :
+  dec_summary w_blen = Some (false, zlen w_blen, false)
+  /\ dec_summary w_cks = Some (false, zlen w_cks, false)
+  /\ dec_summary w_tag = Some (false, zlen w_tag, false)
+  /\ dec_summary w_dup = Some (false, zlen w_dup, false)
+  /\ exists m, dec w_dup_ok = Ok (Some m, zlen w_dup_ok, Some w_dup_ok)
+       /\ ct_get [55; 48] (msg_tags m) = Some VErr.
 Proof.
-  exists w_neg. destruct (decode TBL BS w_neg true) as [[[m n] r]|] eqn:E; [|vm_compute in E; discriminate].
-  exists m, n, r. split; [reflexivity|]. vm_compute in E. inversion E. reflexivity.
+  repeat (split; [vm_compute; reflexivity|]).
+  destruct (dec w_dup_ok) as [[[[m|] n] [r|]]|] eqn:E; try (vm_compute in E; discriminate).
+  exists m. vm_compute in E. inversion E. subst. split; vm_compute; reflexivity.
 Qed.
 
-Lemma consumed_negative_values :
-  dec_summary w_neg = Some (true, (-975)%Z, true) /\ dec_summary w_negbad = Some (false, (-975)%Z, false).
-Proof. split; vm_compute; reflexivity. Qed.
+(* repaired (R10a, R10h, R9c): negative BodyLength / junk prefix: consumed stays within the buffer *)
+Lemma consumed_examples :
+  dec_summary w_neg = Some (false, zlen w_neg, false)
+  /\ dec_summary w_negbad = Some (false, zlen w_negbad, false)
+  /\ dec_summary w_over = Some (false, 10%Z, false) /\ zlen w_over = 37%Z.
+Proof. repeat split; vm_compute; reflexivity. Qed.
 
-Lemma consumed_overlong_refuted :
-  exists raw m n r, decode TBL BS raw true = Ok (m, n, r) /\ (zlen raw < n)%Z.
-Proof.
-  exists w_over. destruct (decode TBL BS w_over true) as [[[m n] r]|] eqn:E; [|vm_compute in E; discriminate].
-  exists m, n, r. split; [reflexivity|]. vm_compute in E. inversion E. reflexivity.
-Qed.
-
-Lemma consumed_overlong_values : dec_summary w_over = Some (true, 47%Z, true) /\ zlen w_over = 37%Z.
-Proof. split; vm_compute; reflexivity. Qed.
-
-(* D8: BodyLength is never compared with the body: a frame the reference grammar rejects only
-   because of its BodyLength (2 instead of 14) is returned as a message, and consumed = 23 of 35 *)
+(* still true (pinned by tests/test_codec.py::test_decode_custom_msg_type): BodyLength is not
+   compared with the body.  A frame whose BodyLength says 2 instead of 14 is returned ... *)
 Lemma bodylength_unchecked_refuted :
   exists raw m n, decode TBL BS raw true = Ok (Some m, n, Some raw)
-    /\ frame_blen raw = Some 2%Z /\ well_framedb raw = false /\ (n < zlen raw)%Z.
+    /\ frame_blen raw = Some 2%Z /\ well_framedb raw = false.
 Proof.
   exists w_wrongbl.
   destruct (decode TBL BS w_wrongbl true) as [[[[m|] n] [r|]]|] eqn:E; try (vm_compute in E; discriminate).
   exists m, n. vm_compute in E. inversion E. subst. repeat split; vm_compute; reflexivity.
 Qed.
 
-(* D8: int() leniency in the CheckSum value: "10= 32" and "10=+32" pass for "10=032" *)
-Lemma checksum_lenient_refuted :
-  exists raw m n, decode TBL BS raw true = Ok (Some m, n, Some raw) /\ well_framedb raw = false
-    /\ exists raw', well_framedb raw' = true /\ length raw' = length raw
-         /\ decode TBL BS raw' true = Ok (Some (mkMsg (msg_type m)
-               (ct_put T10 (VStr [48; 51; 50]) (msg_tags m))), n, Some raw').
+(* ... and so is a frame into which a NUL byte was inserted (the byte sum does not move) *)
+Lemma nul_keeps_checksum_refuted :
+  exists a b m m' n n', w_lz = a ++ b /\ w_nul = a ++ 0 :: b
+    /\ decode TBL BS w_lz true = Ok (Some m, n, Some w_lz)
+    /\ decode TBL BS w_nul true = Ok (Some m', n', Some w_nul)
+    /\ well_framedb w_lz = true /\ well_framedb w_nul = false
+    /\ ct_get [53; 56] (msg_tags m) = Some (VStr [50; 57; 57])
+    /\ ct_get [53; 56] (msg_tags m') = Some (VStr [50; 0; 57; 57]).
 Proof.
-  exists w_lenient.
-  destruct (decode TBL BS w_lenient true) as [[[[m|] n] [r|]]|] eqn:E; try (vm_compute in E; discriminate).
-  exists m, n. vm_compute in E. inversion E. subst. split; [reflexivity|]. split; [vm_compute; reflexivity|].
-  exists w_lz. repeat split; vm_compute; reflexivity.
+  exists (firstn 24 w_lz), (skipn 24 w_lz).
+  destruct (decode TBL BS w_lz true) as [[[[m|] n] [r|]]|] eqn:E; try (vm_compute in E; discriminate).
+  destruct (decode TBL BS w_nul true) as [[[[m'|] n'] [r'|]]|] eqn:E'; try (vm_compute in E'; discriminate).
+  exists m, m', n, n'. vm_compute in E. inversion E. subst. vm_compute in E'. inversion E'. subst.
+  repeat split; vm_compute; reflexivity.
 Qed.
 
-Lemma checksum_lenient_values :
-  dec_summary w_lenient = Some (true, 34%Z, true) /\ dec_summary w_lenient_plus = Some (true, 34%Z, true)
-  /\ dec_summary w_lz = Some (true, 34%Z, true).
+(* repaired (R10b, R10g): only the three-digit spelling of the CheckSum passes *)
+Lemma checksum_strict_examples :
+  dec_summary w_lz = Some (true, 34%Z, true)
+  /\ dec_summary w_lenient = Some (false, 34%Z, false)
+  /\ dec_summary w_lenient_plus = Some (false, 34%Z, false).
 Proof. repeat split; vm_compute; reflexivity. Qed.
 
-(* the CheckSum field need not be the last one: a field placed after it is not covered by the
-   checksum and is returned as part of the message *)
-Lemma trailing_field_unchecked_refuted :
-  exists raw m n, decode TBL BS raw true = Ok (Some m, n, Some raw)
-    /\ ct_get [49] (msg_tags m) = Some (VStr [101; 118; 105; 108])      (* 1=evil *)
-    /\ last (frame_fields raw) [] = field [49] [101; 118; 105; 108]
-    /\ well_framedb raw = false.
+(* repaired (R9b): nothing after the CheckSum field belongs to the frame *)
+Lemma trailing_field_fixed :
+  dec_summary w_trailing = Some (false, 31%Z, false) /\ zlen w_trailing = 38%Z
+  /\ last (frame_fields w_trailing) [] = field T10 [49; 57; 48].
+Proof. repeat split; vm_compute; reflexivity. Qed.
+
+(* D5, still true: the frame extent is found by searching the next "8=FIX.", so an encoder frame
+   whose value contains that text is not returned (the reference grammar accepts it) *)
+Lemma marker_in_field_refuted :
+  well_framedb w_d5 = true /\ dec_summary w_d5 = Some (false, 23%Z, false) /\ zlen w_d5 = 38%Z.
+Proof. repeat split; vm_compute; reflexivity. Qed.
+
+(* repaired (R9a): the tail kept when the buffer ends inside a marker *)
+Lemma marker_tail_examples :
+  dec_summary [97; 98; 99; 56; 61; 70] = Some (false, 3%Z, false)         (* "abc8=F": keeps "8=F" *)
+  /\ dec_summary [56; 61; 70; 73; 88] = Some (false, 0%Z, false)          (* "8=FIX": keeps all *)
+  /\ dec_summary [97; 98; 99] = Some (false, 3%Z, false)                  (* "abc": drops all *)
+  /\ length (delivered (reader_run TBL BS [] [w_good ++ [56; 61; 70]; skipn 3 w_good])) = 2%nat.
+Proof. repeat split; vm_compute; reflexivity. Qed.
+
+(* repaired (R10a-f, R10h): none of the former blocking frames blocks the frames that follow it:
+   both good frames are delivered, the buffer is empty, no exception, no livelock *)
+Lemma no_blocking_examples :
+  Forall (fun first => residual (run2 first) = [] /\ length (delivered (run2 first)) = 2%nat
+                       /\ snd (run2 first) = [0; 0])
+         [w_negbad; w_neg; w_blen; w_cks; w_tag; w_dup; w_frag; w_badbs; w_lenient; w_trailing].
+Proof. repeat constructor; vm_compute; reflexivity. Qed.
+
+(* the general theorem instantiated: a frame with a wrong BeginString followed, in the same
+   buffer, by a good frame *)
+Lemma bad_then_good_example :
+  dec_summary (w_badbs ++ w_good) = Some (false, zlen w_badbs, false)
+  /\ dec_summary (w_frag ++ w_good) = Some (false, zlen w_frag, false)
+  /\ exists m, dec w_good = Ok (Some m, zlen w_good, Some w_good)
+       /\ delivered (reader_run TBL BS [] [w_badbs ++ w_good; w_good]) = [(m, w_good); (m, w_good)].
 Proof.
-  exists w_trailing.
-  destruct (decode TBL BS w_trailing true) as [[[[m|] n] [r|]]|] eqn:E; try (vm_compute in E; discriminate).
-  exists m, n. vm_compute in E. inversion E. subst. repeat split; vm_compute; reflexivity.
+  split; [vm_compute; reflexivity|]. split; [vm_compute; reflexivity|].
+  destruct (dec w_good) as [[[[m|] n] [r|]]|] eqn:E; try (vm_compute in E; discriminate).
+  exists m. vm_compute in E. inversion E. subst. split; vm_compute; reflexivity.
 Qed.
 
-(* D8 / D7: a frame after which nothing is ever delivered again *)
-Definition run2 (first : str) := reader_run TBL BS [] [first ++ w_good; w_good].
-
-(* control: two good frames in two reads are both delivered and the buffer is empty *)
-Lemma reader_control :
-  residual (reader_run TBL BS [] [w_good; w_good]) = []
-  /\ length (delivered (reader_run TBL BS [] [w_good; w_good])) = 2%nat
-  /\ snd (reader_run TBL BS [] [w_good; w_good]) = [0; 0].
+(* repaired (R10i): the reader goes on after a rejection, so a good frame behind rejected
+   candidates is delivered by the same read *)
+Lemma same_read_examples :
+  (let '(b, out, sts) := reader_run TBL BS [] [w_badbs ++ w_good] in (b, length out, sts)) = ([], 1%nat, [0])
+  /\ (let '(b, out, sts) := reader_run TBL BS [] [w_d5 ++ w_good] in (b, length out, sts)) = ([], 1%nat, [0])
+  /\ (let '(b, out, sts) := reader_run TBL BS [] [w_blen ++ w_negbad ++ w_frag ++ w_good ++ w_tag ++ w_good] in
+      (b, length out, sts)) = ([], 2%nat, [0]).
 Proof. repeat split; vm_compute; reflexivity. Qed.
 
-(* negative BodyLength, wrong checksum: the reader waits for ever, the buffer only grows *)
-Lemma stall_negative_refuted :
-  run2 w_negbad = (w_negbad ++ w_good ++ w_good, [], [0; 0]).
-Proof. vm_compute. reflexivity. Qed.
-
-(* a raising frame: every read ends in the exception handler, the buffer only grows *)
-Lemma stall_raising_refuted :
-  run2 w_blen = (w_blen ++ w_good ++ w_good, [], [1; 1]).
-Proof. vm_compute. reflexivity. Qed.
-
-(* negative BodyLength, correct checksum: the inner loop never ends (the same message is handed
-   to the session again and again; status 2 = fuel exhausted) *)
-Lemma spin_negative_refuted :
-  status (reader_step TBL BS [] (w_neg ++ w_good)) = 2
-  /\ residual (reader_step TBL BS [] (w_neg ++ w_good)) = w_neg ++ w_good
-  /\ length (delivered (reader_step TBL BS [] (w_neg ++ w_good))) = S (length (w_neg ++ w_good)).
+(* D8-oversize-bodylength-waits, still true: a candidate whose declared BodyLength exceeds what the
+   buffer holds makes decode wait although complete frames follow it *)
+Lemma oversize_bodylength_waits_refuted :
+  dec_summary (w_oversize ++ w_good) = Some (false, 0%Z, false)
+  /\ frame_blen (w_oversize ++ w_good) = Some 500%Z
+  /\ run2 w_oversize = (w_oversize ++ w_good ++ w_good, [], [0; 0]).
 Proof. repeat split; vm_compute; reflexivity. Qed.
 
-Lemma stall_refuted :
-  exists first, delivered (run2 first) = [] /\ residual (run2 first) = first ++ w_good ++ w_good
-    /\ length (delivered (reader_run TBL BS [] [w_good; w_good])) = 2%nat.
-Proof. exists w_negbad. repeat split; vm_compute; reflexivity. Qed.
-
-Lemma reader_nontermination_refuted :
-  exists buf chunk, status (reader_step TBL BS buf chunk) = 2.
-Proof. exists [], (w_neg ++ w_good). vm_compute. reflexivity. Qed.
-
-Lemma decode_consumed_bounds G bs raw m n r : decode G bs raw true = Ok (m, n, r) ->
-  ((forall bl, frame_blen raw = Some bl -> (0 <= bl)%Z) -> (0 <= n)%Z)
-  /\ (n <= zlen raw + marker_offset raw)%Z
-  /\ (marker_offset raw = 0%Z -> (n <= zlen raw)%Z).
-Proof.
-  intros H. split; [|split].
-  - eapply decode_consumed_nonneg; eauto.
-  - eapply decode_consumed_upper; eauto.
-  - intros E. apply decode_consumed_upper in H. lia.
-Qed.
-
-(* non-vacuity of decode_subst_detected: 58=299 -> 58=298 in w_lz *)
-Definition w_lz_subst : str :=
-  [56; 61; 70; 73; 88; 46; 52; 46; 52; 1; 57; 61; 49; 50; 1; 51; 53; 61; 48; 1; 53; 56; 61; 50; 57; 56; 1; 49; 48; 61; 48; 51; 50; 1].
+(* non-vacuity of decode_accept_sound / decode_subst_detected *)
+Lemma accept_nonvacuous :
+  dec_summary w_nested = Some (true, 130%Z, true) /\ dec_summary w_good = Some (true, 26%Z, true).
+Proof. split; vm_compute; reflexivity. Qed.
 
 Lemma subst_example :
   let pre := [field T8 BS; field T9 [49; 50]; field T35 [48]] in
-  let post := [field T10 [48; 51; 50]] in
-  frame_fields w_lz = pre ++ field [53; 56] ([50; 57] ++ 57 :: []) :: post
-  /\ frame_fields w_lz_subst = pre ++ field [53; 56] ([50; 57] ++ 56 :: []) :: post
+  (* 58=299 -> 58=298 *)
+  frame_fields w_lz = pre ++ ([53; 56; 61; 50; 57] ++ 57 :: []) :: [field T10 [48; 51; 50]]
+  /\ frame_fields w_lz_subst = pre ++ ([53; 56; 61; 50; 57] ++ 56 :: []) :: [field T10 [48; 51; 50]]
+  (* 10=032 -> 10=033 *)
+  /\ frame_fields w_lz = (pre ++ [field [53; 56] [50; 57; 57]]) ++ ([49; 48; 61; 48; 51] ++ 50 :: []) :: []
+  /\ frame_fields w_lz_ck = (pre ++ [field [53; 56] [50; 57; 57]]) ++ ([49; 48; 61; 48; 51] ++ 51 :: []) :: []
   /\ dec_summary w_lz = Some (true, 34%Z, true)
-  /\ dec_summary w_lz_subst = Some (false, 34%Z, false).
+  /\ dec_summary w_lz_subst = Some (false, 34%Z, false)
+  /\ dec_summary w_lz_ck = Some (false, 34%Z, false).
 Proof. repeat split; vm_compute; reflexivity. Qed.
 
-(* D8: a frame with a wrong BeginString (likewise: BodyLength not second, a field without "=")
-   makes decode report the WHOLE buffer as consumed: a good frame received in the same read is
-   discarded with it.  w_badbs = 8=FIX.4.2|9=5|35=0|10=161| *)
-Definition w_badbs : str :=
-  [56; 61; 70; 73; 88; 46; 52; 46; 50; 1; 57; 61; 53; 1; 51; 53; 61; 48; 1; 49; 48; 61; 49; 54; 49; 1].
-
-Lemma drop_buffer_refuted :
-  dec_summary (w_badbs ++ w_good) = Some (false, zlen (w_badbs ++ w_good), false)
-  /\ reader_run TBL BS [] [w_badbs ++ w_good] = ([], [], [0])
-  /\ length (delivered (reader_run TBL BS [] [w_badbs; w_good])) = 1%nat.
-Proof. repeat split; vm_compute; reflexivity. Qed.
-
-(* D8: a fragment that starts with the marker, has fewer than three fields and is followed by
-   another marker is never consumed (consumed = 0 for ever).  w_frag = 8=FIX.4 *)
-Definition w_frag : str := [56; 61; 70; 73; 88; 46; 52].
-
-Lemma stall_fragment_refuted :
-  dec_summary (w_frag ++ w_good) = Some (false, 0%Z, false)
-  /\ run2 w_frag = (w_frag ++ w_good ++ w_good, [], [0; 0]).
-Proof. split; vm_compute; reflexivity. Qed.
+(* no marker: everything but a partial-marker tail is dropped, and what is kept is exactly the
+   proper marker prefix the buffer ends with *)
+Lemma decode_no_marker_tail G bs raw : find_sub MARK raw = None ->
+  exists t, (t <= 5)%nat /\ (t <= length raw)%nat
+    /\ decode G bs raw true = Ok (None, (zlen raw - Z.of_nat t)%Z, None)
+    /\ skipn (length raw - t) raw = firstn t MARK.
+Proof.
+  intros E. pose proof (marker_tail_spec raw) as (A & B & C).
+  exists (marker_tail raw). repeat split; auto. now apply decode_no_marker.
+Qed.
